@@ -2,18 +2,23 @@
 from __future__ import annotations
 
 import ast
+from fractions import Fraction
 
-from ..cfg import CFG
 from ..loops import dotted
 from ..nf import NF, Scope, Poly, parse_expr
 from ..repo import Repo, loc, short, AnalysisError, positional_params, param_names, bind_call
-from ..sem import guard_literals, spec, on_every_path_once, stmt_calls, arg_of, recv_canon
+from ..sem import guard_literals, spec, on_every_path_once, stmt_calls, arg_of, recv_canon, ingredient_tokens, split_conditional_assignments
+from ..sympath import enumerate_paths, PathEval
 
 EXPLANATION = (
     "The checker decides the premises of the ring-buffer induction for ReplayBuffer.add_sample (inherited by LAP / PrioritizedReplayBuffer): "
     "(1) every provided field is stored at the *current* insert index, (2) all stores precede the advance, (3) the advance is "
     "insert' = (insert + 1) mod N, (4) len' = min(len + 1, N), (5) allocation happens only while the buffer is empty with N rows of the "
-    "configured dtype. Given (1)-(5) the FIFO statement follows by induction on the number of additions: the slot written by addition n is "
+    "configured dtype. The premises are read per execution path of add_sample (symbolic evaluation of the statements along every path, so "
+    "locals, augmented assignments, compare-and-reset forms and extracted helpers are read by what they compute): a path is accepted when its "
+    "final insert_idx / current_len are provably (insert + 1) mod N / min(len + 1, N) under the path's conditions and the ring invariant "
+    "0 <= insert < N, 0 <= len <= N; it is a violation when a reachable ring state (small N, every fill level) is a concrete counterexample; "
+    "anything else is an unrecognised form. Given (1)-(5) the FIFO statement follows by induction on the number of additions: the slot written by addition n is "
     "n mod N, a slot is overwritten exactly N additions later, hence the buffer holds the last min(n, N) transitions and [0, len) are exactly "
     "the written slots (trusted five-line argument; the premises are what can break in a code change). Sampling: one index vector gathers "
     "every field inside a single comprehension over self.buffer; the index is drawn from [0, current_len) (uniform) or from a sampler that "
@@ -31,437 +36,1310 @@ RULES = {
 }
 
 RB = "rl_blox.blox.replay_buffer."
+IDX, LEN, CAP = "self.insert_idx", "self.current_len", "self.buffer_size"
+# names a ring-state expression may be built from: a value made of these only that differs from the documented one is a different function of the ring state
+RING_TOKENS = {"self", "insert_idx", "current_len", "buffer_size", "min", "max", "minimum", "maximum", "mod", "len"}
+RING_STATE = {"insert_idx", "current_len", "buffer_size"}
+DRAWS = {"integers", "randint", "choice", "random", "uniform", "permutation", "normal", "shuffle", "random_sample", "rand"}
+WRAPPERS = {"asarray", "array", "int", "astype", "copy", "ravel", "flatten", "int32", "int64", "squeeze"}
 
 
-def _m(repo, cq, name):
-    m = repo.method(cq, name, inherited=False)
+def _m(repo, cq, name, inherited=True):
+    """The method as the class sees it (own or inherited from a base / mixin), with the module of the class that defines it."""
+    m = repo.method(cq, name, inherited=inherited)
     if m is None:
         raise AnalysisError(f"{cq}.{name} not found (anchor vanished)")
     fn = m[1]
-    fn._module = repo.cls(cq)._module
+    fn._module = repo.cls(m[0])._module
+    fn._owner = m[0]
     return fn
 
 
-def ring_law(ck, repo, nf, cq, rule_prefix="R1-ring-law", allow_extra=False):
-    fn = _m(repo, cq, "add_sample")
-    mi = fn._module
-    cfg = nf.cfg_of(fn)
-    site = f"{cq}.add_sample"
-    sc = Scope(cfg, mi, {}, site)
-    stores, adv, lens, allocs = [], [], [], []
-    for n in cfg.nodes:
+def _paths(cfg, src, stops, what):
+    """Every syntactic path (loops: zero or one iteration); which of them can be taken is decided by the caller from the conditions."""
+    try:
+        return enumerate_paths(cfg, src, stops, feasible=False)
+    except RuntimeError:
+        raise AnalysisError(f"{what}: too many execution paths to read (unrecognised form)")
+
+
+# ---------------------------------------------------------------------------------------------------------------------------
+# integer reasoning over the ring state: conditions as trees, linear consequences, concrete evaluation
+class _NoValue(Exception):
+    pass
+
+
+def _num_ast(e, st):
+    if isinstance(e, ast.Constant) and isinstance(e.value, (int, bool)):
+        return Fraction(int(e.value))
+    if isinstance(e, (ast.Attribute, ast.Name)):
+        d = dotted(e)
+        if d in st:
+            return Fraction(st[d])
+        raise _NoValue(d)
+    if isinstance(e, ast.UnaryOp) and isinstance(e.op, ast.USub):
+        return -_num_ast(e.operand, st)
+    if isinstance(e, ast.BinOp) and isinstance(e.op, (ast.Add, ast.Sub, ast.Mult, ast.Div)):
+        a, b = _num_ast(e.left, st), _num_ast(e.right, st)
+        if isinstance(e.op, ast.Div):
+            if b == 0:
+                raise _NoValue("division by zero")
+            return a / b
+        return a + b if isinstance(e.op, ast.Add) else a - b if isinstance(e.op, ast.Sub) else a * b
+    if isinstance(e, ast.Call) and isinstance(e.func, ast.Name) and not e.keywords:
+        f = e.func.id
+        if f == "len" and len(e.args) == 1 and dotted(e.args[0]) == "self" and "len(self)" in st:
+            return Fraction(st["len(self)"])
+        args = [_num_ast(a, st) for a in e.args]
+        if f in ("min", "minimum") and len(args) >= 2:
+            return min(args)
+        if f in ("max", "maximum") and len(args) >= 2:
+            return max(args)
+        if f == "mod" and len(args) == 2:
+            if args[1] <= 0 or any(a.denominator != 1 for a in args):
+                raise _NoValue("mod")
+            return Fraction(int(args[0]) % int(args[1]))
+        if f == "floordiv" and len(args) == 2 and args[1] > 0 and all(a.denominator == 1 for a in args):
+            return Fraction(int(args[0]) // int(args[1]))
+        if f == "ite" and len(args) == 3:
+            return args[1] if args[0] != 0 else args[2]
+        if f in ("Lt", "LtE", "Eq", "NotEq") and len(args) == 2:
+            return Fraction(int({"Lt": args[0] < args[1], "LtE": args[0] <= args[1], "Eq": args[0] == args[1], "NotEq": args[0] != args[1]}[f]))
+    raise _NoValue(ast.dump(e)[:40])
+
+
+def _num(p: Poly, st: dict) -> Fraction:
+    """Value of a normal form in a concrete ring state; _NoValue when it reads anything but the ring state."""
+    if p.elems is not None:
+        raise _NoValue("tuple")
+    tot = Fraction(0)
+    for mono, c in p.terms.items():
+        v = Fraction(c)
+        for a, k in mono:
+            if a in st:
+                x = Fraction(st[a])
+            else:
+                if "^" in a:
+                    raise _NoValue(a)
+                try:
+                    tree = ast.parse(a, mode="eval").body
+                except SyntaxError:
+                    raise _NoValue(a)
+                x = _num_ast(tree, st)
+            if k < 0 and x == 0:
+                raise _NoValue("division by zero")
+            v *= x ** k
+        tot += v
+    return tot
+
+
+def _ring_states():
+    """Every ring state the documented behaviour reaches for the capacities 1..5 (n additions made), with the documented successor."""
+    for N in range(1, 6):
+        for n in range(0, 2 * N + 2):
+            ln = min(n, N)
+            yield {CAP: N, IDX: n % N, LEN: ln, "len(self)": ln}, (n + 1) % N, min(n + 1, N)
+
+
+def _cond_tree(pe, nf, e, norm):
+    """A branch condition, evaluated in the state the path has reached, as a tree over comparison leaves of normal forms."""
+    if isinstance(e, ast.UnaryOp) and isinstance(e.op, ast.Not):
+        return ("not", _cond_tree(pe, nf, e.operand, norm))
+    if isinstance(e, ast.BoolOp):
+        return ("and" if isinstance(e.op, ast.And) else "or", [_cond_tree(pe, nf, v, norm) for v in e.values])
+    if isinstance(e, ast.Compare):
+        parts = [norm(pe.ev(x)) for x in [e.left] + list(e.comparators)]
+        items = [("cmp", type(op).__name__, parts[i], parts[i + 1]) for i, op in enumerate(e.ops)]
+        return items[0] if len(items) == 1 else ("and", items)
+    p = norm(pe.ev(e))
+    m = nf.meta.get(p.single_atom() or "", {})
+    if m.get("fn") in ("Lt", "LtE", "Eq", "NotEq") and len(m.get("args", [])) == 2:
+        return ("cmp", m["fn"], norm(m["args"][0]), norm(m["args"][1]))
+    return ("truth", p)
+
+
+def _tree_tokens(t) -> set:
+    if t[0] == "not":
+        return _tree_tokens(t[1])
+    if t[0] in ("and", "or"):
+        return set().union(*[_tree_tokens(x) for x in t[1]]) if t[1] else set()
+    if t[0] == "cmp":
+        return ingredient_tokens(t[2]) | ingredient_tokens(t[3])
+    return ingredient_tokens(t[1])
+
+
+def _assume(t, truth, facts, nes, unknown):
+    """Linear consequences over the integers of `t is truth`: facts (polys that are >= 0), nes (polys that are != 0); what is not read goes to unknown."""
+    k = t[0]
+    if k == "not":
+        _assume(t[1], not truth, facts, nes, unknown)
+    elif k in ("and", "or"):
+        if (k == "and") == truth:
+            for x in t[1]:
+                _assume(x, truth, facts, nes, unknown)
+        else:
+            unknown.append((t, truth))
+    elif k == "cmp":
+        op, a, b = t[1], t[2], t[3]
+        if op in ("Gt", "GtE"):
+            a, b, op = b, a, {"Gt": "Lt", "GtE": "LtE"}[op]
+        if op not in ("Lt", "LtE", "Eq", "NotEq") or a.elems is not None or b.elems is not None:
+            unknown.append((t, truth))
+            return
+        if not truth:
+            if op in ("Lt", "LtE"):
+                a, b, op = b, a, {"Lt": "LtE", "LtE": "Lt"}[op]     # not (a < b) == b <= a
+            else:
+                op = {"Eq": "NotEq", "NotEq": "Eq"}[op]
+        if op == "Lt":
+            facts.append(b - a - Poly.const(1))
+        elif op == "LtE":
+            facts.append(b - a)
+        elif op == "Eq":
+            facts += [b - a, a - b]
+        else:
+            nes.append(b - a)
+    else:
+        p = t[1]
+        if p.elems is not None:
+            unknown.append((t, truth))
+        elif p.is_const():
+            if (p.const_value() != 0) != truth:
+                facts.append(Poly.const(-1))        # a folded condition that is not taken: the path does not exist
+        elif truth:
+            nes.append(p)
+        else:
+            facts += [p, -p]
+
+
+def _holds(t, st) -> bool:
+    k = t[0]
+    if k == "not":
+        return not _holds(t[1], st)
+    if k == "and":
+        return all(_holds(x, st) for x in t[1])
+    if k == "or":
+        return any(_holds(x, st) for x in t[1])
+    if k == "cmp":
+        a, b = _num(t[2], st), _num(t[3], st)
+        ops = {"Lt": a < b, "LtE": a <= b, "Gt": a > b, "GtE": a >= b, "Eq": a == b, "NotEq": a != b}
+        if t[1] not in ops:
+            raise _NoValue(t[1])
+        return ops[t[1]]
+    return _num(t[1], st) != 0
+
+
+def _nonneg(q: Poly, facts) -> bool:
+    """q >= 0 follows from the facts (each >= 0): q is a fact, or the sum of two, plus a non-negative constant."""
+    cands = [Poly.const(0)] + list(facts)
+    for i, f in enumerate(cands):
+        d = q - f
+        if d.is_const() and d.const_value() >= 0:
+            return True
+        for g in cands[i:]:
+            d2 = d - g
+            if d2.is_const() and d2.const_value() >= 0:
+                return True
+    return False
+
+
+def _close(facts, nes):
+    """d != 0 together with d >= 0 is d >= 1 (integers)."""
+    facts = list(facts)
+    for d in nes:
+        if d.is_zero():
+            facts.append(Poly.const(-1))            # 0 != 0: the path does not exist
+        elif _nonneg(d, facts):
+            facts.append(d - Poly.const(1))
+        elif _nonneg(-d, facts):
+            facts.append(-d - Poly.const(1))
+    return facts
+
+
+def _infeasible(facts) -> bool:
+    for i, f in enumerate(facts):
+        for g in facts[i:]:
+            s = f + g
+            if s.is_const() and s.const_value() < 0:
+                return True
+        if f.is_const() and f.const_value() < 0:
+            return True
+    return False
+
+
+# ---------------------------------------------------------------------------------------------------------------------------
+# R1 / R4: the ring premises, read per execution path of add_sample
+class _RingPath:
+    def __init__(self):
+        self.conds = []      # (tree, truth, node id) in execution order
+        self.stores = []     # dict(node, stmt, key, idx, val, base, nconds, advanced)
+        self.allocs = []     # dict(node, stmt, key, val, nconds)
+        self.other = []      # stores that reach the storage in a way that is not read: (stmt, base canon, val canon)
+        self.rebinds = []    # statements that replace the storage dict
+        self.idx = self.len = None
+
+
+def _flat_targets(s):
+    ts = s.targets if isinstance(s, ast.Assign) else [s.target]
+    out = []
+    for t in ts:
+        out += list(t.elts) if isinstance(t, (ast.Tuple, ast.List)) else [t]
+    return out
+
+
+def _walk_ring_path(nf, cfg, mi, site, path, norm):
+    pe = PathEval(nf, cfg, mi, site, {}, self_class=None)
+    rp = _RingPath()
+    fields = {}          # location text `self.buffer[K]` of the fields (re)allocated on this path -> K
+
+    def raw(e):
+        """Value of a storage expression with the locals resolved but the storage itself kept symbolic (self.buffer[k] stays the location)."""
+        sc = pe.scope()
+        sc.store = {k: v for k, v in pe.store.items() if not (k == "self.buffer" or k.startswith("self.buffer["))}
+        return nf.poly(e, sc, None)
+    for nid, lab in path:
+        n = cfg.nodes[nid]
         s = n.ast
-        if n.kind != "stmt" or not isinstance(s, (ast.Assign, ast.AugAssign)):
-            continue
-        t = s.targets[0] if isinstance(s, ast.Assign) else s.target
-        if isinstance(t, ast.Subscript) and isinstance(t.value, ast.Subscript) and dotted(t.value.value) == "self.buffer":
-            stores.append((n, t))
-        elif isinstance(t, ast.Subscript) and dotted(t.value) == "self.buffer" and isinstance(s, ast.Assign):
-            allocs.append((n, s))
-        elif dotted(t) == "self.insert_idx":
-            adv.append(n)
-        elif dotted(t) == "self.current_len":
-            lens.append(n)
-    return fn, mi, cfg, site, sc, stores, adv, lens, allocs
+        if lab == "exc" or (n.kind == "stmt" and isinstance(s, ast.ExceptHandler)):
+            raise AnalysisError(f"{site}: exception handlers in the ring update (unrecognised form)")
+        if n.kind == "test" and hasattr(s, "test") and lab in (True, False):
+            rp.conds.append((_cond_tree(pe, nf, s.test, norm), lab, nid))
+        elif n.kind == "stmt" and isinstance(s, ast.Assert):
+            rp.conds.append((_cond_tree(pe, nf, s.test, norm), True, nid))
+        elif n.kind == "stmt" and isinstance(s, (ast.Assign, ast.AugAssign, ast.AnnAssign)) and getattr(s, "value", None) is not None:
+            simple = isinstance(s, (ast.Assign, ast.AnnAssign)) and len(_flat_targets(s)) == 1
+            for t in _flat_targets(s):
+                if isinstance(t, ast.Attribute) and dotted(t) == "self.buffer":
+                    rp.rebinds.append(s)
+                if not isinstance(t, ast.Subscript):
+                    continue
+                base = raw(t.value)
+                bc = base.canon()
+                bm = nf.meta.get(base.single_atom() or "", {})
+                key = None
+                if bm.get("fn") in ("subscript", "proj") and bm.get("args") and bm["args"][0].canon() == "self.buffer" and bc.startswith("self.buffer[") and bc.endswith("]"):
+                    key = bc[len("self.buffer["):-1]
+                elif bc == "iter(self.buffer.items())[1]":
+                    key = "iter(self.buffer.items())[0]"          # for k, arr in self.buffer.items(): arr[i] = ...
+                elif isinstance(t.value, ast.Name):
+                    # a local bound to a field after the field was (re)allocated on this path holds that field
+                    key = next((k_ for l_, k_ in fields.items() if l_ in pe.store and pe.store[l_].canon() == bc), None)
+                if bc == "self.buffer":
+                    if not simple:
+                        raise AnalysisError(f"{site}: storage field assigned by `{short(s, 60)}` (unrecognised form)")
+                    rp.allocs.append({"node": nid, "stmt": s, "key": norm(pe.ev(t.slice)), "val": pe.ev(s.value), "nconds": len(rp.conds)})
+                    fields[pe.target_key(t)] = rp.allocs[-1]["key"].canon()
+                elif key is not None:
+                    if not simple:
+                        raise AnalysisError(f"{site}: storage row written by `{short(s, 60)}` (unrecognised form)")
+                    sl = t.slice
+                    if isinstance(sl, ast.Tuple):
+                        # buffer[k][i, ...] = v and buffer[k][i, :] = v write row i
+                        if not sl.elts or not all((isinstance(x, ast.Constant) and x.value is Ellipsis) or (isinstance(x, ast.Slice) and x.lower is None and x.upper is None and x.step is None) for x in sl.elts[1:]):
+                            raise AnalysisError(f"{site}: storage row written by `{short(s, 60)}` (unrecognised form)")
+                        sl = sl.elts[0]
+                    if isinstance(sl, ast.Slice):
+                        raise AnalysisError(f"{site}: storage rows written by `{short(s, 60)}` (unrecognised form)")
+                    rp.stores.append({"node": nid, "stmt": s, "key": key, "keyexpr": t.value.slice if isinstance(t.value, ast.Subscript) else None, "idx": norm(pe.ev(sl)),
+                                      "val": pe.ev(s.value), "nconds": len(rp.conds), "advanced": IDX in pe.store})
+                elif {"buffer", "self"} <= ingredient_tokens(base):
+                    rp.other.append((s, base, pe.ev(s.value)))
+        pe.step(nid, lab)
+    rp.idx = norm(pe.store[IDX]) if IDX in pe.store else None
+    rp.len = norm(pe.store[LEN]) if LEN in pe.store else None
+    return rp
+
+
+def _is_min_of(nf, v: Poly, a: Poly, b: Poly) -> bool:
+    m = nf.meta.get(v.single_atom() or "", {})
+    if m.get("fn", "").split(".")[-1] in ("min", "minimum") and len(m.get("args", [])) == 2 and not m.get("kws"):
+        x, y = m["args"]
+        return (x == a and y == b) or (x == b and y == a)
+    return False
+
+
+def _path_facts(rp, upto=None):
+    facts, nes, unknown = [], [], []
+    seen = {}
+    for t, truth, _ in (rp.conds if upto is None else rp.conds[:upto]):
+        _assume(t, truth, facts, nes, unknown)
+        # the same condition (on the values it had when it was tested) taken both ways: the path does not exist
+        if seen.setdefault(_show_tree(t, 400), truth) != truth:
+            facts.append(Poly.const(-1))
+    return facts, nes, unknown
+
+
+def _witness(rp, upto, check):
+    """A reachable ring state that takes this path (conditions on the ring state hold; conditions on anything else are free) and for which
+    ``check(state, idx', len')`` is true: concrete evidence.  None when there is none or the path's conditions are not evaluable."""
+    import re
+    conds = rp.conds if upto is None else rp.conds[:upto]
+    # free: conditions on the provided sample / the keys of the storage.  Conditions that read the ring state, or any other attribute of the
+    # object (a cached flag may be tied to the ring state by an invariant this rule does not know), must hold in the state
+    rel = [(t, truth) for t, truth, _ in conds if _tree_tokens(t) & (RING_STATE | {"len"}) or set(re.findall(r"self\.(\w+)", _show_tree(t, 400))) - {"buffer", "Batch"}]
+    for st, want_idx, want_len in _ring_states():
+        try:
+            if all(_holds(t, st) == truth for t, truth in rel) and check(st, want_idx, want_len):
+                return st
+        except _NoValue:
+            return None
+    return None
+
+
+def _fmt_state(st):
+    return f"buffer_size={st[CAP]}, insert_idx={st[IDX]}, current_len={st[LEN]}"
+
+
+def _pairs_by_name(kw, key: str, val: Poly) -> bool:
+    """The stored value is the one provided under the key of the storage field: (k, v) of kwargs.items(), or kwargs[k]."""
+    vc = val.canon()
+    if key == f"iter({kw}.items())[0]" and vc == f"iter({kw}.items())[1]":
+        return True
+    return vc == f"{kw}[{key}]"
+
+
+def _all_fields(kw, key: str) -> bool:
+    """The key ranges over every provided field (or over every field of the storage, which then must all be provided)."""
+    return key in (f"iter({kw}.items())[0]", f"iter({kw})", f"iter({kw}.keys())", "iter(self.buffer)", "iter(self.buffer.keys())", "iter(self.buffer.items())[0]")
 
 
 def _ring(ck, repo, nf):
     cq = RB + "ReplayBuffer"
-    fn, mi, cfg, site, sc, stores, adv, lens, allocs = ring_law(ck, repo, nf, cq)
-    where = loc(mi, fn)
+    fn0 = _m(repo, cq, "add_sample")
+    mi = fn0._module
+    site = f"{cq}.add_sample"
+    where = loc(mi, fn0)
+    fn = split_conditional_assignments(fn0)          # `x = a if c else b` is read as two paths
     kwarg = fn.args.kwarg.arg if fn.args.kwarg else None
     ck.need(kwarg is not None, f"{site}: the transition is not passed as keyword fields (unrecognised idiom)")
-    if not adv or not lens:
-        raise AnalysisError(f"{site}: the ring state (insert_idx / current_len) is not written by direct assignments in add_sample (unrecognised form)")
-    ck.ob("R1-ring-law", site, "single-advance", len(adv) == 1, f"{len(adv)} assignment(s) to insert_idx", "" if len(adv) == 1 else "the write position must advance exactly once per addition", where)
-    ck.ob("R1-ring-law", site, "single-length-update", len(lens) == 1, f"{len(lens)} assignment(s) to current_len", "" if len(lens) == 1 else "the length must be updated exactly once per addition", where)
-    # stores through an alias of the storage arrays (positional pairing) are looked for explicitly
-    alias_stores = []
+    cfg = nf.cfg_of(fn)
+    one, zero = Poly.const(1), Poly.const(0)
+    a_idx, a_len, a_cap = (Poly.atom(x, {x}, frozenset()) for x in (IDX, LEN, CAP))
+    sc0 = Scope(None, mi, {}, site)
+    len_self = nf.poly(parse_expr("len(self)"), sc0, None).single_atom()
+
+    def norm(p):
+        # component i of a record built in place (NamedTuple carrier of the ring state) is the i-th constructor argument
+        a = p.single_atom()
+        m = nf.meta.get(a or "", {})
+        if m.get("fn") == "proj" and len(m.get("args", [])) == 1 and a.endswith("]") and a[a.rfind("[") + 1:-1].isdigit():
+            mq = nf.meta.get(m["args"][0].single_atom() or "", {})
+            i = int(a[a.rfind("[") + 1:-1])
+            if "record" in mq and i < len(mq.get("args", [])):
+                p = mq["args"][i]
+        # len(self) is current_len (R6 decides that separately)
+        if p.elems is None and len_self and len_self in p.atoms():
+            return p.subst({len_self: a_len})
+        return p
+    MOD = nf.poly(parse_expr("(self.insert_idx + 1) % self.buffer_size"), sc0, None)
+    invariant = [a_idx, a_cap - a_idx - one, a_len, a_cap - a_len, a_cap - one]      # 0 <= insert < N, 0 <= len <= N, N >= 1
     for n in cfg.nodes:
-        s_ = n.ast
-        if n.kind == "stmt" and isinstance(s_, ast.Assign) and isinstance(s_.targets[0], ast.Subscript) and isinstance(s_.targets[0].value, ast.Name):
-            for d in cfg.defs_of(n.id, s_.targets[0].value.id):
-                if d.kind == "for" and d.value is not None and "self.buffer" in ast.unparse(d.value):
-                    alias_stores.append((n, d))
-    for n, d in alias_stores:
-        ck.ob("R1-ring-law", site, "store-by-key", False, f"`{short(n.ast, 60)}` with `{short(d.value, 60)}`",
-              "the storage array is chosen by *position* in the iteration, not by the field name of the value: keyword arguments in another order land in the wrong field", loc(mi, n.ast))
-    if len(adv) == 1:
-        a = adv[0]
-        v = nf.poly(a.ast.value, sc, a.id).canon() if isinstance(a.ast, ast.Assign) else "?"
-        ok = v == "mod(1 + self.insert_idx, self.buffer_size)" and not cfg.control_deps(a.id)
-        ck.ob("R1-ring-law", site, "advance-mod-capacity", ok, f"insert_idx' = {v}", "" if ok else "must be (insert_idx + 1) % buffer_size, unconditionally", loc(mi, a.ast))
-        for n, t in stores:
-            idx = nf.poly(t.slice, Scope(None, mi, {}, site), None).canon()
-            before = cfg.paths_avoiding(a.id, n.id, set()) is None
-            if isinstance(t.slice, ast.Name):
-                # a local that holds the write position: it must have been read before the advance
-                ds = cfg.defs_of(n.id, t.slice.id)
-                if len(ds) == 1 and ds[0].kind == "assign" and dotted(ds[0].value) == "self.insert_idx":
-                    idx = "self.insert_idx"
-                    before = cfg.paths_avoiding(a.id, ds[0].node, set()) is None
-            ok = idx == "self.insert_idx" and before
-            ck.ob("R1-ring-law", site, f"store-at-insert-idx:{short(t.value.slice, 20)}", ok, f"`{short(n.ast, 60)}`",
-                  "" if ok else ("the field is stored at a different index than the write position" if idx != "self.insert_idx" else "the store happens after the write position advanced: the transition is split over two slots"), loc(mi, n.ast))
-    # every provided field is stored under its own name
-    n_named = 0
-    for n, t in stores:
-        kexpr, vexpr = t.value.slice, n.ast.value
-        okk = False
-        if isinstance(kexpr, ast.Name) and isinstance(vexpr, ast.Name):
-            dk, dv = cfg.defs_of(n.id, kexpr.id), cfg.defs_of(n.id, vexpr.id)
-            if len(dk) == 1 and len(dv) == 1 and dk[0].kind == "for" and dv[0].kind == "for" and dk[0].node == dv[0].node and dk[0].path == (0,) and dv[0].path == (1,) \
-                    and isinstance(dk[0].value, ast.Call) and isinstance(dk[0].value.func, ast.Attribute) and dk[0].value.func.attr == "items" and dotted(dk[0].value.func.value) == kwarg:
-                okk = True
-        if isinstance(vexpr, ast.Subscript) and dotted(vexpr.value) == kwarg and ast.dump(vexpr.slice) == ast.dump(kexpr):
-            okk = True
-        n_named += int(okk)
-        if not okk:
-            raise AnalysisError(f"{site}: store `{short(n.ast, 60)}` pairs storage and value in a way this check does not recognise")
-    if not alias_stores:
-        ck.ob("R1-ring-law", site, "stores-every-provided-field", n_named >= 1, f"{[short(n.ast, 50) for n, _ in stores]}", "" if n_named else "the transition is never written into the storage", where)
-    if len(lens) == 1:
-        l = lens[0]
-        v = nf.poly(l.ast.value, sc, l.id).canon() if isinstance(l.ast, ast.Assign) else "?"
-        # the length update may read insert_idx only if that is provably the pre-advance value; the canonical form does not read it at all
-        ok = v == "min(1 + self.current_len, self.buffer_size)" and not cfg.control_deps(l.id)
-        ck.ob("R1-ring-law", site, "length-saturates", ok, f"current_len' = {v}", "" if ok else "must be min(current_len + 1, buffer_size), unconditionally", loc(mi, l.ast))
-    # R4 allocation (directly in add_sample, or in a helper method called from it)
-    alloc_ctx = [(cfg, n, s, n) for n, s in allocs]
-    if not allocs:
-        for n in cfg.nodes:
-            if n.kind == "stmt" and isinstance(n.ast, ast.Expr) and isinstance(n.ast.value, ast.Call) and isinstance(n.ast.value.func, ast.Attribute) and dotted(n.ast.value.func.value) == "self":
-                hm = repo.method(cq, n.ast.value.func.attr)
-                if hm:
-                    hfn = hm[1]
-                    hfn._module = mi
-                    hcfg = nf.cfg_of(hfn)
-                    for m in hcfg.nodes:
-                        if m.kind == "stmt" and isinstance(m.ast, ast.Assign) and isinstance(m.ast.targets[0], ast.Subscript) and dotted(m.ast.targets[0].value) == "self.buffer":
-                            alloc_ctx.append((hcfg, m, m.ast, n))
-    ck.need(len(alloc_ctx) >= 1, f"{site}: storage allocation not found (unrecognised idiom)")
-    ck.ob("R4-allocation", site, "single-allocation", len(alloc_ctx) == 1, f"{len(alloc_ctx)} allocation statement(s)", "" if len(alloc_ctx) == 1 else "storage must be allocated in one place", where)
-    EMPTY = {spec(nf, mi, "self.current_len == 0"), spec(nf, mi, "not self.current_len"), spec(nf, mi, "len(self) == 0"), spec(nf, mi, "self.current_len < 1"), "not(self.current_len)"}
-    for acfg, an, s, n in alloc_ctx:
-        g = guard_literals(nf, cfg, mi, n.id)
-        if acfg is not cfg:
-            g = g + [x for x in guard_literals(nf, acfg, mi, an.id) if x not in g]   # guards inside the allocation helper count as well
-        v = nf.poly(s.value, Scope(None, mi, {}, site), None).canon()
-        okg = any(x in EMPTY for x in g)
-        # value: np.empty / np.zeros of shape (buffer_size,) + <shape of the provided value>, dtype of the configured storage of the same key
-        call = s.value
-        okv = False
-        if isinstance(call, ast.Call) and dotted(call.func) in ("np.empty", "numpy.empty", "np.zeros", "numpy.zeros", "np.empty_like") and call.args:
-            asc = Scope(acfg, mi, {}, site)
-            shp = nf.poly(call.args[0], asc, an.id)
-            dt = next((k_.value for k_ in call.keywords if k_.arg == "dtype"), call.args[1] if len(call.args) > 1 else None)
-            dts = nf.poly(dt, asc, an.id).canon() if dt is not None else ""
-            key_txt = nf.poly(s.targets[0].slice, asc, an.id).canon()
-            terms = sorted(a_ for a_ in shp.atoms())
-            lead = [a_ for a_ in terms if a_.startswith("(")]
-            tail = [a_ for a_ in terms if a_.endswith(".shape")]
-            ok_shape = len(shp.terms) == 2 and len(lead) == 1 and lead[0] == "(self.buffer_size)" and len(tail) == 1
-            ok_dtype = dts == f"self.buffer[{key_txt}].dtype"
-            okv = ok_shape and ok_dtype
-            if not okv and len(shp.terms) == 2 and len(lead) == 1 and len(tail) == 1 and not ok_shape:
-                pass   # wrong leading dimension: violation below
-            elif not okv and ok_shape and dts and not ok_dtype:
-                pass   # wrong dtype: violation below
-            elif not okv:
-                raise AnalysisError(f"{site}: allocation `{short(s, 80)}` not recognised")
+        if n.kind == "stmt" and isinstance(n.ast, (ast.Assign, ast.AugAssign, ast.AnnAssign)) and cfg.enclosing_loops(n.id) and any(isinstance(t, ast.Attribute) and dotted(t) in (IDX, LEN, CAP) for t in _flat_targets(n.ast)):
+            raise AnalysisError(f"{site}: `{short(n.ast, 60)}` updates the ring state inside a loop (unrecognised form)")
+    paths = [_walk_ring_path(nf, cfg, mi, site, p, norm) for p in _paths(cfg, cfg.entry, {cfg.exit}, site)]
+    ck.need(paths, f"{site}: no path reaches the end of add_sample (unrecognised form)")
+    if not any(rp.idx is not None for rp in paths) or not any(rp.len is not None for rp in paths):
+        raise AnalysisError(f"{site}: the ring state (insert_idx / current_len) is not written in add_sample (unrecognised form)")
+
+    # -- the advance and the length, per path ---------------------------------------------------
+    def decide(key, shown_name, value_of, proofs, want_of, why):
+        bad, undecided, shown = None, None, set()
+        for rp in paths:
+            facts, nes, unknown = _path_facts(rp)
+            facts = _close(invariant + facts, nes)
+            if _infeasible(facts):
+                continue
+            v = value_of(rp)
+            shown.add(v.canon())
+            if "φ(" in v.canon() or "⟦" in v.canon():
+                undecided = undecided or v
+                continue
+            if proofs(v, facts):
+                continue
+            w = _witness(rp, None, lambda st, wi, wl, v=v: _num(v, st) != want_of(wi, wl))
+            if w is not None:
+                bad = bad or (v, w, rp)
+            else:
+                undecided = undecided or v
+        if bad is not None:
+            v, w, rp = bad
+            got = _num(v, w)
+            ck.ob("R1-ring-law", site, key, False, f"{shown_name}' = {v.canon()[:120]}", f"{why}: from the reachable state {_fmt_state(w)} this path leaves {shown_name} = {got}", where,
+                  witness=[f"state {_fmt_state(w)}", f"path conditions: {[(_show_tree(t), truth) for t, truth, _ in rp.conds]}", f"{shown_name}' = {v.canon()[:150]} = {got}"])
+        elif undecided is not None:
+            raise AnalysisError(f"{site}: {shown_name}' = `{undecided.canon()[:110]}` on one path (unrecognised form)")
+        else:
+            ck.ob("R1-ring-law", site, key, True, f"{shown_name}' = {sorted(shown)} on the {len(paths)} paths", "", where)
+
+    def idx_proof(v, facts):
+        if v == MOD:
+            return True
+        if v == a_idx + one and _nonneg(a_cap - a_idx - one - one, facts):      # no wrap: insert + 1 <= N - 1
+            return True
+        return v == zero and _nonneg(a_idx + one - a_cap, facts)                # wrap: insert + 1 >= N
+
+    def len_proof(v, facts):
+        if _is_min_of(nf, v, a_len + one, a_cap):
+            return True
+        if v == a_len + one and _nonneg(a_cap - a_len - one, facts):
+            return True
+        if v == a_cap and _nonneg(a_len + one - a_cap, facts):
+            return True
+        return v == a_len and _nonneg(a_len - a_cap, facts)
+    # the four premises are decided independently: an unread form in one of them does not hide a violation of another
+    ck.guard(decide, "advance-mod-capacity", "insert_idx", lambda rp: rp.idx if rp.idx is not None else a_idx, idx_proof, lambda wi, wl: wi, "must be (insert_idx + 1) % buffer_size on every addition")
+    ck.guard(decide, "length-saturates", "current_len", lambda rp: rp.len if rp.len is not None else a_len, len_proof, lambda wi, wl: wl, "must be min(current_len + 1, buffer_size) on every addition")
+    ck.guard(_ring_stores, ck, nf, mi, site, where, kwarg, paths, a_idx)
+    ck.guard(_ring_alloc, ck, nf, mi, site, kwarg, paths, invariant, a_len)
+
+
+
+def _ring_stores(ck, nf, mi, site, where, kwarg, paths, a_idx):
+    """The stores: at the write position as it was on entry, every provided field under its own name."""
+    seen_nodes, named, violated, store_undecided = set(), 0, False, None
+    for rp in paths:
+        for s_, base, val in rp.other:
+            if id(s_) in seen_nodes:
+                continue
+            m = nf.meta.get(base.single_atom() or "", {})
+            src = m["args"][0].canon() if m.get("fn") == "proj" and m.get("args") else ""
+            if src.startswith("iter(zip(") and "self.buffer.values()" in src and f"{kwarg}.values()" in src:
+                seen_nodes.add(id(s_))
+                violated = True
+                ck.ob("R1-ring-law", site, "store-by-key", False, f"`{short(s_, 60)}` with `{src[5:-1][:60]}`",
+                      "the storage array is chosen by *position* in the iteration, not by the field name of the value: keyword arguments in another order land in the wrong field", loc(mi, s_))
+            else:
+                store_undecided = store_undecided or f"store `{short(s_, 60)}` reaches the storage through `{base.canon()[:60]}`"
+        for st in rp.stores:
+            if st["node"] in seen_nodes:
+                continue
+            label = short(st["keyexpr"], 20) if st["keyexpr"] is not None else st["key"][:20]
+            if not (_pairs_by_name(kwarg, st["key"], st["val"]) and _all_fields(kwarg, st["key"])):
+                store_undecided = store_undecided or f"store `{short(st['stmt'], 60)}` pairs storage and value in a way this check does not recognise"
+                continue
+            if st["idx"] == a_idx:
+                seen_nodes.add(st["node"])
+                named += 1
+                ck.ob("R1-ring-law", site, f"store-at-insert-idx:{label}", True, f"`{short(st['stmt'], 60)}` at the entry write position", "", loc(mi, st["stmt"]))
+                continue
+            w = _witness(rp, st["nconds"], lambda s2, wi, wl, v=st["idx"]: _num(v, s2) != s2[IDX])
+            if w is None:
+                store_undecided = store_undecided or f"store `{short(st['stmt'], 60)}` at index `{st['idx'].canon()[:60]}`"
+                continue
+            seen_nodes.add(st["node"])
+            violated = True
+            ck.ob("R1-ring-law", site, f"store-at-insert-idx:{label}", False, f"`{short(st['stmt'], 60)}` writes row {st['idx'].canon()[:80]}",
+                  ("the store happens after the write position advanced: the transition is split over two slots" if st["advanced"] else "the field is stored at a different index than the write position")
+                  + f" (state {_fmt_state(w)}: row {_num(st['idx'], w)})", loc(mi, st["stmt"]))
+    if violated:
+        return
+    if store_undecided:
+        raise AnalysisError(f"{site}: {store_undecided} (unrecognised form)")
+    if not named:
+        raise AnalysisError(f"{site}: no store of the provided fields into self.buffer[key][row] found (unrecognised form)")
+    ck.ob("R1-ring-law", site, "stores-every-provided-field", True, f"{named} store statement(s) write the provided value under its own key", "", where)
+
+
+def _ring_alloc(ck, nf, mi, site, kwarg, paths, invariant, a_len):
+    """R4 allocation: only while the buffer is empty, buffer_size rows of the value's shape, configured dtype."""
+    for rp in paths:
+        if rp.rebinds:
+            raise AnalysisError(f"{site}: `{short(rp.rebinds[0], 60)}` replaces the storage dict - allocation not recognised")
+    allocs = {}
+    for rp in paths:
+        for al in rp.allocs:
+            allocs.setdefault(al["node"], []).append((rp, al))
+    ck.need(allocs, f"{site}: storage allocation not found (unrecognised idiom)")
+    for nid_, items in allocs.items():
+        rp0, al0 = items[0]
+        s = al0["stmt"]
+        # guard
+        okg, wit = True, None
+        for rp, al in items:
+            facts, nes, unknown = _path_facts(rp, al["nconds"])
+            facts = _close(invariant + facts, nes)
+            if _infeasible(facts) or _nonneg(-a_len, facts):
+                continue
+            okg = False
+            w = _witness(rp, al["nconds"], lambda s2, wi, wl: s2[LEN] > 0)
+            if w is not None:
+                wit = wit or (w, rp, al)
+        shown_g = [(_show_tree(t), truth) for t, truth, _ in rp0.conds[:al0["nconds"]]]
+        if not okg and wit is None:
+            raise AnalysisError(f"{site}: allocation guard {shown_g} not recognised")
+        # value
+        key = al0["key"].canon()
+        v = al0["val"]
+        m = nf.meta.get(v.single_atom() or "", {})
+        fshort = m.get("fn", "").split(".")[-1]
+        args, kws = list(m.get("args", [])), dict(m.get("kws", {}))
+        if fshort in ("empty", "zeros"):
+            shp = args[0] if args else kws.get("shape")
+            dt = kws.get("dtype", args[1] if len(args) > 1 else None)
+        elif fshort in ("empty_like", "zeros_like") and args and "shape" in kws:
+            shp, dt = kws["shape"], kws.get("dtype", Poly.atom(f"{args[0].canon()}.dtype"))
         else:
             raise AnalysisError(f"{site}: allocation `{short(s, 80)}` not recognised")
+        if shp is None or shp.elems is not None or len(shp.terms) != 2 or any(len(mono) != 1 or mono[0][1] != 1 or c != 1 for mono, c in shp.terms.items()):
+            raise AnalysisError(f"{site}: allocation `{short(s, 80)}` not recognised")
+        ats = sorted(shp.atoms())
+        lead = [a_ for a_ in ats if a_.startswith("(")]
+        tail = [a_ for a_ in ats if a_ not in lead]
+        if len(lead) != 1 or len(tail) != 1:
+            raise AnalysisError(f"{site}: allocation `{short(s, 80)}` not recognised")
+        tm = nf.meta.get(tail[0], {})
+        tsrc = tm["args"][0] if (tm.get("fn") == "attr" and tail[0].endswith(".shape") and tm.get("args")) or (tm.get("fn", "").split(".")[-1] == "shape" and len(tm.get("args", [])) == 1) else None
+        if tsrc is None or not _pairs_by_name(kwarg, key, tsrc):
+            raise AnalysisError(f"{site}: allocation `{short(s, 80)}`: the trailing shape `{tail[0][:50]}` is not the shape of the provided value (unrecognised form)")
+        ok_shape = lead[0] == f"({CAP})"
+        if not ok_shape and not (lead[0].count(",") == 0 and ingredient_tokens(Poly.atom(lead[0])) <= RING_TOKENS):
+            raise AnalysisError(f"{site}: allocation `{short(s, 80)}`: leading dimension `{lead[0][:50]}` (unrecognised form)")
+        dts = dt.canon() if dt is not None else None
+        ok_dtype = dts == f"self.buffer[{key}].dtype"
+        if ok_shape and not ok_dtype and dts is not None:
+            # a dtype that is known to be another one: a literal type, or the dtype of the provided value
+            dm = nf.meta.get(dts, {})
+            other = dts in ("float", "int", "bool", "complex") or dts.startswith(("numpy.", "jax.numpy.")) or (dts.endswith(".dtype") and dm.get("fn") == "attr" and dm.get("args") and _pairs_by_name(kwarg, key, dm["args"][0]))
+            if not other:
+                raise AnalysisError(f"{site}: allocation `{short(s, 80)}`: dtype `{dts[:50]}` (unrecognised form)")
+        okv = ok_shape and ok_dtype
         why = ""
         if not okg:
-            if any("insert_idx" in x for x in g) or not g:
-                why = f"storage is (re)allocated under {g or 'no condition'}: every wrap-around / addition discards the stored transitions"
-            else:
-                raise AnalysisError(f"{site}: allocation guard {g} not recognised")
+            w, rp, al = wit
+            why = (f"storage is (re)allocated under {[(_show_tree(t), truth) for t, truth, _ in rp.conds[:al['nconds']]] or 'no condition'}: reached with stored transitions "
+                   f"(state {_fmt_state(w)}), which the allocation discards")
         elif not okv:
-            why = "allocation must create buffer_size rows of the value's shape with the configured dtype"
-        ck.ob("R4-allocation", site, "empty-buffer-only", okg and okv, f"`{short(s, 90)}` under {g}", why, loc(mi, s))
+            why = "allocation must create buffer_size rows of the value's shape with the configured dtype" + (" (no dtype given: numpy's default float64)" if dts is None else "")
+        ck.ob("R4-allocation", site, "empty-buffer-only", okg and okv, f"`{short(s, 90)}` under {shown_g}", why, loc(mi, s))
+
+
+def _show_tree(t, width=40) -> str:
+    if t[0] == "not":
+        return f"not({_show_tree(t[1], width)})"
+    if t[0] in ("and", "or"):
+        return f"{t[0]}(" + ", ".join(_show_tree(x, width) for x in t[1]) + ")"
+    if t[0] == "cmp":
+        return f"{t[1]}({t[2].canon()[:width]}, {t[3].canon()[:width]})"
+    return t[1].canon()[:width + 10]
+
+
+# ---------------------------------------------------------------------------------------------------------------------------
+# R2 / R3: one index vector for all fields, drawn from the valid prefix
+def _peel(e, mi):
+    """Strip value-transparent wrappers of an index expression: np.asarray(x), x.astype(int), int(x) ..."""
+    while isinstance(e, ast.Call) and not any(isinstance(a, ast.Starred) for a in e.args):
+        f = e.func
+        is_mod = isinstance(f, ast.Attribute) and isinstance(f.value, ast.Name) and f.value.id in mi.imports
+        if isinstance(f, ast.Name) and f.id in WRAPPERS and len(e.args) == 1 and not e.keywords:
+            e = e.args[0]
+        elif isinstance(f, ast.Attribute) and f.attr in WRAPPERS and is_mod and e.args:
+            e = e.args[0]
+        elif isinstance(f, ast.Attribute) and f.attr in WRAPPERS and not is_mod:
+            e = f.value
+        else:
+            break
+    return e
+
+
+def _resolve_draws(cfg, mi, at, e, site, depth=0):
+    """Follow local aliases and transparent wrappers from an index expression to the call(s) that produce the index vector: [(call, node id)],
+    one per reaching definition."""
+    e = _peel(e, mi)
+    if isinstance(e, ast.Name) and depth < 12:
+        ds = cfg.defs_of(at, e.id)
+        if not ds or any(d.kind != "assign" for d in ds):
+            raise AnalysisError(f"{site}: index vector `{e.id}` is not defined by plain assignments (unrecognised form)")
+        out = []
+        for d in ds:
+            out += _resolve_draws(cfg, mi, d.node, d.value, site, depth + 1)
+        return out
+    if isinstance(e, ast.Call):
+        return [(e, at)]
+    raise AnalysisError(f"{site}: index vector `{short(e, 50)}` is not produced by a call (unrecognised form)")
+
+
+def _is_draw(repo, cq, c: ast.Call, depth=0) -> bool:
+    """The call draws random numbers: a generator method, or a method of the buffer / its priority store that does."""
+    if not isinstance(c.func, ast.Attribute):
+        return False
+    if c.func.attr in DRAWS:
+        return True
+    if depth < 2:
+        for owner in (cq, RB + "PriorityBuffer"):
+            try:
+                m = repo.method(owner, c.func.attr)
+            except Exception:
+                m = None
+            if m is not None and any(isinstance(x, ast.Call) and isinstance(x.func, ast.Attribute) and x.func.attr in DRAWS for x in ast.walk(m[1])):
+                return True
+    return False
+
+
+def _attr_class(repo, cq, attr):
+    """Class of the object a constructor of the class (or of a base) stores in self.<attr>."""
+    for c in repo.mro(cq):
+        m = repo.method(c, "__init__", inherited=False)
+        if m is None:
+            continue
+        mi = repo.cls(c)._module
+        for st in ast.walk(m[1]):
+            if isinstance(st, (ast.Assign, ast.AnnAssign)) and isinstance(getattr(st, "value", None), ast.Call):
+                for t in (st.targets if isinstance(st, ast.Assign) else [st.target]):
+                    if isinstance(t, ast.Attribute) and dotted(t) == f"self.{attr}":
+                        r = repo.resolve_expr(mi, st.value.func)
+                        if r and repo.has(r):
+                            try:
+                                repo.cls(r)
+                                return r
+                            except Exception:
+                                pass
+    return None
+
+
+def _ring_evidence(p: Poly) -> bool:
+    c = p.canon()
+    return "φ(" not in c and "⟦" not in c and ingredient_tokens(p) <= RING_TOKENS
+
+
+def _gather_one(ck, repo, nf, cq, samplers):
+    from ..sem import field_gathers
+    fn = _m(repo, cq, "sample_batch")
+    site = f"{cq}.sample_batch"
+    if fn._owner != cq and fn._owner in (RB + "ReplayBuffer", RB + "LAP", RB + "PrioritizedReplayBuffer"):
+        ck.ob("R2-one-index-vector", site, "inherits:sample_batch", True, f"{cq.rsplit('.', 1)[1]} samples with {fn._owner.rsplit('.', 1)[1]}.sample_batch", "", cq)
+        return
+    mi = fn._module
+    cfg = nf.cfg_of(fn)
+    fg = field_gathers(fn)
+    ck.need(fg, f"{site}: no per-field gather `self.buffer[k][indices]` inside an iteration over self.buffer found (unrecognised idiom)")
+    owners = []
+    for g_ in fg:
+        if not any(g_["owner"] is o for o in owners):
+            owners.append(g_["owner"])
+    draws = []
+    for ow in owners:
+        grp = [g_ for g_ in fg if g_["owner"] is ow]
+        loop_vars = set().union(*[g_["vars"] for g_ in grp])
+        try:
+            at = cfg.node_of(grp[0]["sub"]).id
+        except KeyError:
+            raise AnalysisError(f"{site}: the gather `{short(grp[0]['sub'], 50)}` is not a statement of sample_batch (unrecognised form)")
+        sc = Scope(cfg, mi, {}, site)
+        sc.opaque_names = set(loop_vars)
+        vals = {}
+        for g_ in grp:
+            vals.setdefault(nf.poly(g_["index"], sc, at).canon(), g_["index"])
+        ix = grp[0]["index"]
+        fresh = [c for v in vals.values() for c in ast.walk(v) if isinstance(c, ast.Call) and _is_draw(repo, cq, c)]
+        key_dep = any(isinstance(x, ast.Name) and x.id in loop_vars for v in vals.values() for x in ast.walk(v))
+        ok = len(vals) == 1 and not fresh and not key_dep
+        if not ok and not fresh and not key_dep:
+            raise AnalysisError(f"{site}: fields gathered at {[short(v, 40) for v in vals.values()]} - whether these are the same rows is not decided (unrecognised form)")
+        ck.ob("R2-one-index-vector", site, "same-index-for-all-fields", ok, f"fields gathered at {[short(v, 40) for v in vals.values()]}",
+              "" if ok else "every field of a batch row must be read with the same, once-drawn index vector: an index computed per field (fresh draw / field-dependent) mixes transitions", loc(mi, ix))
+        if ok:
+            draws.append((ix, at))
+    ck.guard(_gather_pairing, ck, repo, cq, site, mi, fg)
+    ck.guard(_gather_bound, ck, repo, nf, cq, site, mi, cfg, draws, samplers)
+
+
+def _gather_pairing(ck, repo, cq, site, mi, fg):
+    """How does a gathered column meet its field of the Batch?"""
+    from ..sem import storage_rebindings
+    pairings = {g_["pairing"] for g_ in fg}
+    if None in pairings:
+        raise AnalysisError(f"{site}: how the gathered columns are paired with the fields of the batch is not recognised")
+    if "position" in pairings:
+        # positional: column order == iteration order of self.buffer; the Batch type was derived from the dict's keys when the object was
+        # built, so the dict must never be replaced by one with another key order
+        reb = storage_rebindings(repo, cq)
+        bad_reb = []
+        for mq_, st_ in reb:
+            v_ = st_.value
+            keeps = any(isinstance(c_, (ast.DictComp, ast.GeneratorExp, ast.ListComp)) and any(dotted(g2.iter) == "self.buffer" or (isinstance(g2.iter, ast.Call) and isinstance(g2.iter.func, ast.Attribute) and dotted(g2.iter.func.value) == "self.buffer") for g2 in c_.generators) for c_ in ast.walk(v_))
+            if not keeps:
+                bad_reb.append((mq_, st_))
+        if bad_reb:
+            # where do the new dict's keys come from?  evidence of another order: a local filled in a loop over the keyword fields of the added sample
+            mq_, st_ = bad_reb[0]
+            src_ = None
+            mfn = repo.method(mq_.rsplit(".", 1)[0], mq_.rsplit(".", 1)[1], inherited=False)
+            kw_ = mfn[1].args.kwarg.arg if mfn and mfn[1].args.kwarg else None
+            if isinstance(st_.value, ast.Name) and mfn:
+                for lp in ast.walk(mfn[1]):
+                    if isinstance(lp, ast.For) and any(isinstance(a_, ast.Assign) and isinstance(a_.targets[0], ast.Subscript) and dotted(a_.targets[0].value) == st_.value.id for a_ in ast.walk(lp)):
+                        src_ = lp.iter
+            over_kwargs = src_ is not None and kw_ is not None and (dotted(src_) == kw_ or (isinstance(src_, ast.Call) and isinstance(src_.func, ast.Attribute) and src_.func.attr in ("items", "keys") and dotted(src_.func.value) == kw_ and not src_.args))
+            if not over_kwargs:
+                raise AnalysisError(f"{site}: the batch is built positionally and `{short(st_, 60)}` replaces the storage dict - whether the key order is kept is not decided")
+            ck.ob("R2-one-index-vector", site, "columns-meet-their-fields", False, f"positional batch `{short(fg[0]['owner'], 50)}`; `{short(st_, 50)}` in {mq_.rsplit('.', 1)[1]} rebuilds the dict in the order of `{short(src_, 30)}`",
+                  "the batch fields are filled by position in the iteration order of self.buffer, but the storage dict is re-created with the key order of the first added sample's keywords: with another keyword order every field of a sampled row carries another field's data", loc(mi, fg[0]["owner"]))
+        else:
+            ck.ob("R2-one-index-vector", site, "columns-meet-their-fields", True, "positional batch; the storage dict is never replaced after construction (key order == Batch field order)", "", loc(mi, fg[0]["owner"]))
+
+
+def _gather_bound(ck, repo, nf, cq, site, mi, cfg, draws, samplers):
+    """R3: where the index vector comes from."""
+    done = set()
+    for ix, at, src, at_src in [(ix, at, src, at_src) for ix, at in draws for src, at_src in _resolve_draws(cfg, mi, at, ix, site)]:
+        if id(src) in done:
+            continue
+        done.add(id(src))
+        ixn = short(_peel(ix, mi), 30)
+        sc = Scope(cfg, mi, {}, site)
+        f = src.func
+        if isinstance(f, ast.Attribute) and f.attr in ("integers", "randint", "choice"):
+            if isinstance(f.value, (ast.Name, ast.Attribute)) and repo.resolve_expr(mi, f.value) == "random":
+                raise AnalysisError(f"{site}: index vector drawn by the standard library's `{short(src, 50)}` (unrecognised form)")
+            incl = False
+            if f.attr == "choice":
+                hi, lo = arg_of(src, 0, "a"), None
+            else:
+                if len(src.args) >= 2 or any(k.arg == "high" for k in src.keywords):
+                    lo, hi = arg_of(src, 0, "low"), arg_of(src, 1, "high")
+                else:
+                    lo, hi = None, arg_of(src, 0, "low")
+                ep = next((k.value for k in src.keywords if k.arg == "endpoint"), None)
+                if ep is not None:
+                    if not (isinstance(ep, ast.Constant) and isinstance(ep.value, bool)):
+                        raise AnalysisError(f"{site}: `{short(src, 60)}`: endpoint is not a literal (unrecognised form)")
+                    incl = ep.value
+            if hi is None or any(isinstance(a_, ast.Starred) for a_ in src.args) or any(k.arg is None for k in src.keywords):
+                raise AnalysisError(f"{site}: bounds of `{short(src, 60)}` not recognised")
+            hip = nf.poly(hi, sc, at_src) + (Poly.const(1) if incl else Poly.const(0))
+            lop = nf.poly(lo, sc, at_src) if lo is not None else Poly.const(0)
+            his, los = hip.canon(), lop.canon()
+            ok = his in (LEN, "len(self)", f"arange({LEN})", "arange(len(self))") and los == "0"
+            if not ok and not (_ring_evidence(hip) and _ring_evidence(lop)):
+                raise AnalysisError(f"{site}: index vector drawn from [{los[:40]}, {his[:40]}) (unrecognised form)")
+            ck.ob("R3-index-bound", site, "uniform-over-valid-prefix", ok, f"{ixn} = {short(src, 60)}: range [{los}, {his})",
+                  "" if ok else "indices must be drawn from [0, current_len): slots beyond current_len were never written (and a positive lower bound never returns the oldest transitions)", loc(mi, src))
+            continue
+        # a priority sampler of the buffer or of its priority store, bound by its signature
+        ck.need(isinstance(f, ast.Attribute), f"{site}: index vector drawn by `{short(src, 50)}` (unrecognised idiom)")
+        recv = recv_canon(nf, cfg, mi, cfg.nodes[at_src], src)
+        owner = cq if recv == "self" else (_attr_class(repo, cq, recv[len("self."):]) if recv.startswith("self.") and recv[len("self."):].isidentifier() else None)
+        cm = repo.method(owner, f.attr) if owner else None
+        ck.need(cm is not None, f"{site}: index vector drawn by `{short(src, 50)}` (unrecognised idiom)")
+        callee = cm[1]
+        callee._module = repo.cls(cm[0])._module
+        ps = [p for p in positional_params(callee)][1:]
+        ck.need(ps and not any(isinstance(a_, ast.Starred) for a_ in src.args) and not any(k.arg is None for k in src.keywords), f"{site}: arguments of `{short(src, 50)}` not recognised")
+        b = bind_call(callee, src, skip_self=True)
+        ck.need(ps[0] in b, f"{site}: `{short(src, 50)}` does not pass the number of valid entries `{ps[0]}` (unrecognised form)")
+        gotp = nf.poly(b[ps[0]], sc, at_src)
+        got = gotp.canon()
+        ok = got in (LEN, "len(self)")
+        if not ok and not _ring_evidence(gotp):
+            raise AnalysisError(f"{site}: the sampler is restricted to `{got[:60]}` entries (unrecognised form)")
+        ck.ob("R3-index-bound", site, "sampler-gets-current-len", ok, f"{ixn} = {short(src, 70)}: {ps[0]} <- {got}", "" if ok else "the priority sampler must be restricted to the first current_len entries", loc(mi, src))
+        store_field = "self.priority" if RB + "PriorityBuffer" in repo.mro(cm[0]) else f"{recv}.priority.priority" if recv == "self" else None
+        if store_field is not None:
+            samplers.setdefault((cm[0], f.attr), (callee, store_field))
+
+
+def _ifexp_variants(fn, site, attr, limit=3):
+    """Copies of a function in which every conditional expression `a if c else b` is replaced by one of its two values (all combinations):
+    what a value is built from on some execution is what it is built from in one of the copies."""
+    from ..expand import clone
+    ifs = [x for x in ast.walk(fn) if isinstance(x, ast.IfExp)]
+    if not ifs:
+        return [fn]
+    if len(ifs) > limit or any(isinstance(y, ast.Attribute) and y.attr == attr for x in ifs for y in ast.walk(x.test)):
+        raise AnalysisError(f"{site}: conditional expressions over the priority store (unrecognised form)")
+    out = []
+    for bits in range(2 ** len(ifs)):
+        class _Pick(ast.NodeTransformer):
+            def __init__(self):
+                self.i = 0
+
+            def visit_IfExp(self, node):
+                k, self.i = self.i, self.i + 1
+                return self.visit(node.body if (bits >> k) & 1 else node.orelse)
+        new = _Pick().visit(clone(fn))
+        ast.fix_missing_locations(new)
+        for parent in ast.walk(new):
+            for child in ast.iter_child_nodes(parent):
+                child._parent = parent
+        new._module = fn._module
+        out.append(new)
+    return out
+
+
+def _sampler_sliced(ck, repo, nf, owner, meth, fn, field):
+    """The sampler restricts the stored priorities to [:n] (n = its first parameter): every occurrence of the store in the returned indices is that slice."""
+    mi = fn._module
+    site = f"{owner}.{meth}"
+    ps = positional_params(fn)
+    ck.need(len(ps) >= 2, f"{site}: no parameter for the number of valid entries (anchor vanished)")
+    lenp = ps[1]
+    env = {p: Poly.atom(p, {p}, {p}) for p in param_names(fn)}
+    good, bare, other = [], [], []
+
+    def walk(p: Poly, under=""):
+        if p.elems is not None:
+            for e_ in p.elems:
+                walk(e_, under)
+            return
+        for a in p.atoms():
+            a = a[1:] if a.startswith("*") else a          # f(*xs): the unpacked value is read like the value
+            m = nf.meta.get(a)
+            if a == field:
+                if under not in ("shape", "dtype", "size", "ndim", "len"):
+                    bare.append(a)
+            elif m and m.get("fn") == "subscript" and m.get("args") and m["args"][0].canon() == field:
+                (good if a[len(field) + 1:-1] in (f":{lenp}", f"0:{lenp}") else other).append(a)
+            elif m is not None and (m.get("args") or m.get("kws")):
+                u = a.rsplit(".", 1)[-1] if m.get("fn") == "attr" else m.get("fn", "").split(".")[-1]
+                for x in m.get("args", []):
+                    walk(x, u)
+                for x in m.get("kws", {}).values():
+                    walk(x, u)
+            elif field in a:
+                other.append(a)
+    for fv in _ifexp_variants(fn, site, field.rsplit(".", 1)[-1]):
+        cfg = nf.cfg_of(fv)
+        rets = [n for n in cfg.nodes if n.kind == "stmt" and isinstance(n.ast, ast.Return) and n.ast.value is not None]
+        ck.need(rets, f"{site}: nothing returned (anchor vanished)")
+        for r in rets:
+            for p in _paths(cfg, cfg.entry, {r.id}, site):
+                pe = PathEval(nf, cfg, mi, site, env).run(p[:-1])
+                walk(pe.ev(r.ast.value))
+    if bare:
+        ck.ob("R3-index-bound", site, "priorities-sliced-to-length", False, f"the sampled distribution reads the whole {field}", "an unsliced use of the priority store takes part in sampling: never-written slots can be drawn", loc(mi, fn))
+        return
+    if other:
+        raise AnalysisError(f"{site}: stored priorities are read as `{other[0][:80]}` (unrecognised form)")
+    if not good:
+        raise AnalysisError(f"{site}: stored priorities do not occur in the returned indices (unrecognised idiom)")
+    ck.ob("R3-index-bound", site, "priorities-sliced-to-length", True, f"every use of {field} in the sampled distribution is {field}[:{lenp}]", "", loc(mi, fn))
 
 
 def _gather(ck, repo, nf):
-    """R2 / R3: one index vector for all fields, drawn from the valid prefix."""
-    for cq, sampler in ((RB + "ReplayBuffer", "uniform"), (RB + "LAP", "priority"), (RB + "PrioritizedReplayBuffer", "stratified")):
-        fn = _m(repo, cq, "sample_batch")
-        mi = fn._module
-        cfg = nf.cfg_of(fn)
-        site = f"{cq}.sample_batch"
-        from ..sem import field_gathers, storage_rebindings
-        fg = field_gathers(fn)
-        ck.need(fg, f"{site}: no per-field gather `self.buffer[k][indices]` inside an iteration over self.buffer found (unrecognised idiom)")
-        gathers = [g_["sub"] for g_ in fg]
-        idx_exprs = {ast.dump(g_["index"]): g_["index"] for g_ in fg}
-        loop_vars = set().union(*[g_["vars"] for g_ in fg])
-        one = len(idx_exprs) == 1
-        ix = next(iter(idx_exprs.values()))
-        fresh = any(isinstance(x, ast.Call) for x in ast.walk(ix))
-        key_dep = any(isinstance(x, ast.Name) and x.id in loop_vars for x in ast.walk(ix))
-        ok = one and not fresh and not key_dep
-        ck.ob("R2-one-index-vector", site, "same-index-for-all-fields", ok, f"fields gathered at {[short(v, 40) for v in idx_exprs.values()]}",
-              "" if ok else "every field of a batch row must be read with the same, once-drawn index vector: an index computed per field (fresh draw / field-dependent) mixes transitions", loc(mi, ix))
-        # how does a gathered column meet its field of the Batch?
-        pairings = {g_["pairing"] for g_ in fg}
-        if None in pairings:
-            raise AnalysisError(f"{site}: how the gathered columns are paired with the fields of the batch is not recognised")
-        if "position" in pairings:
-            # positional: column order == iteration order of self.buffer; the Batch type was derived from the dict's keys when the object was
-            # built, so the dict must never be replaced by one with another key order
-            reb = storage_rebindings(repo, cq)
-            bad_reb = []
-            for mq_, st_ in reb:
-                v_ = st_.value
-                keeps = any(isinstance(c_, (ast.DictComp, ast.GeneratorExp, ast.ListComp)) and any(dotted(g2.iter) == "self.buffer" or (isinstance(g2.iter, ast.Call) and isinstance(g2.iter.func, ast.Attribute) and dotted(g2.iter.func.value) == "self.buffer") for g2 in c_.generators) for c_ in ast.walk(v_))
-                if not keeps:
-                    bad_reb.append((mq_, st_))
-            okp = not bad_reb
-            if bad_reb:
-                # where do the new dict's keys come from?  (a local filled in a loop over something else than self.buffer)
-                mq_, st_ = bad_reb[0]
-                src_ = None
-                if isinstance(st_.value, ast.Name):
-                    mfn = repo.method(mq_.rsplit(".", 1)[0], mq_.rsplit(".", 1)[1], inherited=False)
-                    for lp in ast.walk(mfn[1]) if mfn else []:
-                        if isinstance(lp, ast.For) and any(isinstance(a_, ast.Assign) and isinstance(a_.targets[0], ast.Subscript) and dotted(a_.targets[0].value) == st_.value.id for a_ in ast.walk(lp)):
-                            src_ = lp.iter
-                if src_ is None or "self.buffer" in ast.unparse(src_):
-                    raise AnalysisError(f"{site}: the batch is built positionally and `{short(st_, 60)}` replaces the storage dict - whether the key order is kept is not decided")
-                ck.ob("R2-one-index-vector", site, "columns-meet-their-fields", False, f"positional batch `{short(fg[0]['owner'], 50)}`; `{short(st_, 50)}` in {mq_.rsplit('.', 1)[1]} rebuilds the dict in the order of `{short(src_, 30)}`",
-                      "the batch fields are filled by position in the iteration order of self.buffer, but the storage dict is re-created with the key order of the first added sample's keywords: with another keyword order every field of a sampled row carries another field's data", loc(mi, fg[0]["owner"]))
-            else:
-                ck.ob("R2-one-index-vector", site, "columns-meet-their-fields", True, "positional batch; the storage dict is never replaced after construction (key order == Batch field order)", "", loc(mi, fg[0]["owner"]))
-        if not ok or not isinstance(ix, ast.Name):
-            if ok:
-                raise AnalysisError(f"{site}: index expression `{short(ix)}` is not a variable (unrecognised idiom)")
-            continue
-        at = cfg.node_of(gathers[0]).id
-        ds = cfg.defs_of(at, ix.id)
-        ck.need(len(ds) == 1 and ds[0].kind == "assign" and isinstance(ds[0].value, ast.Call), f"{site}: index vector has no single defining call")
-        src = ds[0].value
-        LEN = "self.current_len"
-        sc0 = Scope(None, mi, {}, site)
-        if sampler == "uniform":
-            f = src.func
-            ck.need(isinstance(f, ast.Attribute) and f.attr in ("integers", "randint", "choice"), f"{site}: index vector drawn by `{short(src, 50)}` (unrecognised idiom)")
-            if f.attr == "choice":
-                hi, lo = arg_of(src, 0, "a"), None
-            elif len(src.args) >= 2 or any(k.arg == "high" for k in src.keywords):
-                lo, hi = arg_of(src, 0, "low"), arg_of(src, 1, "high")
-            else:
-                lo, hi = None, arg_of(src, 0, "low")
-            his = nf.poly(hi, sc0, None).canon() if hi is not None else "?"
-            los = nf.poly(lo, sc0, None).canon() if lo is not None else "0"
-            ok = his in (LEN, "len(self)") and los == "0"
-            ck.ob("R3-index-bound", site, "uniform-over-valid-prefix", ok, f"{ix.id} = {short(src, 60)}: range [{los}, {his})",
-                  "" if ok else "indices must be drawn from [0, current_len): slots beyond current_len were never written (and a positive lower bound never returns the oldest transitions)", loc(mi, src))
-        else:
-            callee = repo.method(RB + "PriorityBuffer", "prioritized_sampling")[1] if sampler == "priority" else repo.method(cq, "prioritized_sampling_stratified")[1]
-            want_recv = "self.priority.prioritized_sampling" if sampler == "priority" else "self.prioritized_sampling_stratified"
-            ck.need(dotted(src.func) == want_recv, f"{site}: index vector drawn by `{short(src, 50)}` (unrecognised idiom)")
-            b = bind_call(callee, src, skip_self=True)
-            got = nf.poly(b["current_len"], sc0, None).canon() if "current_len" in b else "?"
-            ok = got in (LEN, "len(self)")
-            ck.ob("R3-index-bound", site, "sampler-gets-current-len", ok, f"{ix.id} = {short(src, 70)}: current_len <- {got}", "" if ok else "the priority sampler must be restricted to the first current_len entries", loc(mi, src))
-    # the samplers restrict the priorities to [:current_len]: every occurrence of the stored priorities in the sampled distribution is sliced
-    from ..sympath import enumerate_paths, PathEval
-    for cq, meth, field in ((RB + "PriorityBuffer", "prioritized_sampling", "self.priority"), (RB + "PrioritizedReplayBuffer", "prioritized_sampling_stratified", "self.priority.priority")):
-        fn = _m(repo, cq, meth)
-        mi = fn._module
-        cfg = nf.cfg_of(fn)
-        rets = [n for n in cfg.nodes if n.kind == "stmt" and isinstance(n.ast, ast.Return)]
-        ck.ob("R3-index-bound", f"{cq}.{meth}", "single-return", len(rets) == 1, f"{len(rets)} return(s)", "" if len(rets) == 1 else "the sampler must have one exit", loc(mi, fn))
-        if len(rets) != 1:
-            continue
-        env = {p: Poly.atom(p, {p}, {p}) for p in positional_params(fn)}
-        bad, seen = [], 0
-        for p in enumerate_paths(cfg, cfg.entry, {rets[0].id}):
-            pe = PathEval(nf, cfg, mi, f"{cq}.{meth}", env).run(p[:-1])
-            txt = pe.ev(rets[0].ast.value).canon()
-            if txt.startswith("self.") and txt in pe.store:
-                txt = pe.store[txt].canon()
-            txt2 = txt
-            for k, v in pe.store.items():
-                if k in txt2:
-                    txt2 = txt2.replace(k, v.canon())
-            seen += txt2.count(field + "[")
-            rest = txt2.replace(field + "[:current_len]", "")
-            if field in rest.replace(field + ".", "§.") if field == "self.priority" else field in rest:
-                bad.append(txt2[:120])
-        ok = not bad and seen > 0
-        if seen == 0 and not bad:
-            raise AnalysisError(f"{cq}.{meth}: stored priorities do not occur in the returned indices (unrecognised idiom)")
-        ck.ob("R3-index-bound", f"{cq}.{meth}", "priorities-sliced-to-length", ok, f"every use of {field} in the sampled distribution is {field}[:current_len]", "" if ok else f"an unsliced use of the priority store takes part in sampling ({bad[:1]}): never-written slots can be drawn", loc(mi, fn))
+    samplers = {}
+    for cq in (RB + "ReplayBuffer", RB + "LAP", RB + "PrioritizedReplayBuffer"):
+        ck.guard(_gather_one, ck, repo, nf, cq, samplers)
+    # the samplers of the library, whether or not a sample_batch was read down to them
+    for owner, meth, field in ((RB + "PriorityBuffer", "prioritized_sampling", "self.priority"), (RB + "PrioritizedReplayBuffer", "prioritized_sampling_stratified", "self.priority.priority")):
+        m = repo.method(owner, meth)
+        if m is not None and (m[0], meth) not in samplers:
+            m[1]._module = repo.cls(m[0])._module
+            samplers[(m[0], meth)] = (m[1], field)
+    ck.need(samplers, "no priority sampler found (anchor vanished)")
+    for (owner, meth), (fn, field) in samplers.items():
+        ck.guard(_sampler_sliced, ck, repo, nf, owner, meth, fn, field)
+
+
+# ---------------------------------------------------------------------------------------------------------------------------
+# R6 length, and the subclasses that add through the base ring
+def _returned(nf, fn, mi, site):
+    cfg = nf.cfg_of(fn)
+    rets = [n for n in cfg.nodes if n.kind == "stmt" and isinstance(n.ast, ast.Return) and n.ast.value is not None]
+    ck_vals = [nf.poly(r.ast.value, Scope(cfg, mi, {}, site), r.id) for r in rets]
+    if not ck_vals:
+        raise AnalysisError(f"{site}: returns nothing (unrecognised form)")
+    return ck_vals
+
+
+def _length_of(ck, repo, nf, cq):
+    fn = _m(repo, cq, "__len__")
+    mi = fn._module
+    vals = _returned(nf, fn, mi, f"{cq}.__len__")
+    ok = all(v.canon() == LEN for v in vals)
+    if not ok and not all(_ring_evidence(v) for v in vals):
+        raise AnalysisError(f"{cq}.__len__: returns {sorted(v.canon()[:60] for v in vals)} (unrecognised form)")
+    ck.ob("R6-length", f"{cq}.__len__", "returns-current-len", ok, f"return {sorted({v.canon() for v in vals})}", "" if ok else "length must be the number of stored transitions", loc(mi, fn))
+
+
+def _is_base_call(repo, cq, mi, c: ast.Call, name: str):
+    """`super().name(...)`, `super(C, self).name(...)` or `Base.name(self, ...)` with Base a base class of cq: the positional arguments after self, else None."""
+    if not (isinstance(c.func, ast.Attribute) and c.func.attr == name):
+        return None
+    r = c.func.value
+    if isinstance(r, ast.Call) and isinstance(r.func, ast.Name) and r.func.id == "super" and not r.keywords and len(r.args) in (0, 2):
+        return list(c.args)
+    if isinstance(r, (ast.Name, ast.Attribute)):
+        q = repo.resolve_expr(mi, r)
+        if q and q in repo.mro(cq)[1:] and c.args and dotted(c.args[0]) == "self":
+            return list(c.args[1:])
+    return None
+
+
+def _delegates(ck, repo, nf, cq):
+    """A subclass that overrides add_sample adds through the base ring: exactly one base add_sample(**sample) on every path, no ring state written here."""
+    short_cq = cq.rsplit(".", 1)[1]
+    own = repo.method(cq, "add_sample", inherited=False)
+    if own is None:
+        ck.ob("R1-ring-law", f"{cq}.add_sample", "delegates-to-ring", True, f"{short_cq} inherits add_sample", "", cq)
+        return
+    fn = _m(repo, cq, "add_sample", inherited=False)
+    mi = fn._module
+    cfg = nf.cfg_of(fn)
+    site = f"{cq}.add_sample"
+    kwarg = fn.args.kwarg.arg if fn.args.kwarg else None
+    sup = [(n, c) for n, c in stmt_calls(cfg, lambda c: _is_base_call(repo, cq, mi, c, "add_sample") is not None)]
+    ring_writes = [short(n.ast, 50) for n in cfg.nodes if n.kind == "stmt" and isinstance(n.ast, (ast.Assign, ast.AugAssign, ast.AnnAssign)) and any(
+        (dotted(t) in (IDX, LEN)) or (isinstance(t, ast.Subscript) and dotted(t.value) == "self.buffer") or (isinstance(t, ast.Subscript) and isinstance(t.value, ast.Subscript) and dotted(t.value.value) == "self.buffer")
+        for t in _flat_targets(n.ast))]
+    if not sup:
+        raise AnalysisError(f"{site}: no call of the base class's add_sample found (unrecognised form)")
+    for _, c in sup:
+        pos = _is_base_call(repo, cq, mi, c, "add_sample")
+        if not (pos == [] and kwarg is not None and len(c.keywords) == 1 and c.keywords[0].arg is None and dotted(c.keywords[0].value) == kwarg):
+            raise AnalysisError(f"{site}: `{short(c, 60)}` - whether the transition fields are forwarded unchanged is not decided (unrecognised form)")
+    once = on_every_path_once(cfg, [n.id for n, _ in sup])
+    ok = once and not ring_writes
+    why = ""
+    if not once:
+        why = "the transition must be added to the base ring exactly once on every path"
+    elif ring_writes:
+        why = f"{short_cq}.add_sample writes ring state itself: {ring_writes}"
+    ck.ob("R1-ring-law", site, "delegates-to-ring", ok, f"{len(sup)} base add_sample call(s); ring writes {ring_writes}", why, loc(mi, fn))
+
+
+def _inherits_len(ck, repo, nf, cq):
+    own = repo.method(cq, "__len__", inherited=False)
+    if own is None:
+        ck.ob("R6-length", cq, "inherits:__len__", True, f"{cq.rsplit('.', 1)[1]} inherits __len__", "", cq)
+        return
+    fn = _m(repo, cq, "__len__", inherited=False)
+    vals = _returned(nf, fn, fn._module, f"{cq}.__len__")
+    sup = nf.poly(parse_expr("super().__len__()"), Scope(None, fn._module, {}, cq), None).canon()
+    ok = all(v.canon() in (LEN, sup) for v in vals)
+    if not ok and not all(_ring_evidence(v) for v in vals):
+        raise AnalysisError(f"{cq}.__len__: returns {sorted(v.canon()[:60] for v in vals)} (unrecognised form)")
+    ck.ob("R6-length", cq, "inherits:__len__", ok, f"{cq.rsplit('.', 1)[1]}.__len__ returns {sorted({v.canon() for v in vals})}", "" if ok else "overrides the length with something else than the number of stored transitions", cq)
 
 
 def _lengths(ck, repo, nf):
     for cq in (RB + "ReplayBuffer", RB + "SubtrajectoryReplayBuffer"):
-        fn = _m(repo, cq, "__len__")
-        mi = fn._module
-        cfg = nf.cfg_of(fn)
-        rets = [n for n in cfg.nodes if n.kind == "stmt" and isinstance(n.ast, ast.Return)]
-        vals = {nf.poly(r.ast.value, Scope(cfg, mi, {}, cq), r.id).canon() for r in rets}
-        ok = vals == {"self.current_len"}
-        ck.ob("R6-length", f"{cq}.__len__", "returns-current-len", ok, f"return {sorted(vals)}", "" if ok else "length must be the number of stored transitions", loc(mi, fn))
+        ck.guard(_length_of, ck, repo, nf, cq)
     for cq in (RB + "LAP", RB + "PrioritizedReplayBuffer"):
-        own = repo.method(cq, "__len__", inherited=False)
-        if own is not None:
-            fn = own[1]
-            vals = {nf.poly(r.value, Scope(None, repo.cls(cq)._module, {}, cq), None).canon() for r in ast.walk(fn) if isinstance(r, ast.Return)}
-            ok = vals <= {"self.current_len", "super().__len__()"}
-            ck.ob("R6-length", cq, "inherits:__len__", ok, f"{cq.rsplit('.', 1)[1]}.__len__ returns {sorted(vals)}", "" if ok else "overrides the length with something else than the number of stored transitions", cq)
-        else:
-            ck.ob("R6-length", cq, "inherits:__len__", True, f"{cq.rsplit('.', 1)[1]} inherits __len__", "", cq)
-    # LAP adds through the base ring: exactly one super().add_sample(**sample) on every path, no ring state written here
-    fn = _m(repo, RB + "LAP", "add_sample")
-    mi = fn._module
-    cfg = nf.cfg_of(fn)
-    kwarg = fn.args.kwarg.arg if fn.args.kwarg else None
-    sup = stmt_calls(cfg, lambda c: ast.unparse(c.func) == "super().add_sample")
-    fwd = all(len(c.args) == 0 and len(c.keywords) == 1 and c.keywords[0].arg is None and dotted(c.keywords[0].value) == kwarg for _, c in sup)
-    once = on_every_path_once(cfg, [n.id for n, _ in sup])
-    ring_writes = [short(n.ast, 50) for n in cfg.nodes if n.kind == "stmt" and isinstance(n.ast, (ast.Assign, ast.AugAssign)) and any(
-        (dotted(t) in ("self.insert_idx", "self.current_len")) or (isinstance(t, ast.Subscript) and (dotted(t.value) or "").startswith("self.buffer")) or (isinstance(t, ast.Subscript) and isinstance(t.value, ast.Subscript) and dotted(t.value.value) == "self.buffer")
-        for t in (n.ast.targets if isinstance(n.ast, ast.Assign) else [n.ast.target]))]
-    ok = once and fwd and not ring_writes
-    why = ""
-    if not once:
-        why = "the transition must be added to the base ring exactly once on every path"
-    elif not fwd:
-        why = "the transition fields must be forwarded unchanged (**sample)"
-    elif ring_writes:
-        why = f"LAP.add_sample writes ring state itself: {ring_writes}"
-    ck.ob("R1-ring-law", RB + "LAP.add_sample", "delegates-to-ring", ok, f"{len(sup)} super().add_sample call(s); ring writes {ring_writes}", why, loc(mi, fn))
+        ck.guard(_inherits_len, ck, repo, nf, cq)
+        ck.guard(_delegates, ck, repo, nf, cq)
 
 
-def _multitask(ck, repo, nf):
-    cq = RB + "MultiTaskReplayBuffer"
+# ---------------------------------------------------------------------------------------------------------------------------
+# R5 / R6: multi-task routing
+MT = RB + "MultiTaskReplayBuffer"
+SEL = "self.selected_task"
+_SET_REMOVERS = ("discard", "remove", "clear", "pop", "difference_update", "intersection_update", "symmetric_difference_update")
+_SEQ_ADDERS = {"bisect.insort", "bisect.insort_left", "bisect.insort_right", "heapq.heappush"}
+
+
+def _single_literal(e):
+    """x of the one-element displays [x], (x,), {x}; None otherwise."""
+    if isinstance(e, (ast.List, ast.Tuple, ast.Set)) and len(e.elts) == 1 and not isinstance(e.elts[0], ast.Starred):
+        return e.elts[0]
+    return None
+
+
+def _active_changes(nf, cfg, mi, fn):
+    """Every statement of a method that changes self.active_buffers: (node, how, element expr or None, whole-argument expr or None) with how in
+    add | add-many | remove | assign."""
+    out = []
+    for n in cfg.nodes:
+        if n.ast is None or n.kind in ("entry", "exit"):
+            continue
+        roots = [n.ast] if n.kind == "stmt" else [n.ast.test] if n.kind == "test" and hasattr(n.ast, "test") else [n.ast.iter] if n.kind == "for" else []
+        for r in roots:
+            for c in ast.walk(r):
+                if isinstance(c, ast.Call) and isinstance(c.func, ast.Attribute) and recv_canon(nf, cfg, mi, n, c) == "self.active_buffers":
+                    if c.func.attr == "add" and len(c.args) == 1 and not c.keywords:
+                        out.append((n, "add", c.args[0], None))
+                    elif c.func.attr == "update" and len(c.args) == 1 and not c.keywords:
+                        el = _single_literal(c.args[0])
+                        out.append((n, "add", el, None) if el is not None else (n, "add-many", None, c.args[0]))
+                    elif c.func.attr in _SET_REMOVERS:
+                        out.append((n, "remove", None, None))
+                    elif c.func.attr in ("append", "insert", "extend", "union_update", "__ior__", "setdefault", "__setitem__"):
+                        out.append((n, "add-many", None, c.args[-1] if c.args else None))
+                elif isinstance(c, ast.Call) and isinstance(c.func, (ast.Name, ast.Attribute)) and nf.repo.resolve_expr(mi, c.func) in _SEQ_ADDERS and len(c.args) >= 2 \
+                        and nf.poly(c.args[0], _as_stored(cfg, mi), n.id).canon() == "self.active_buffers":
+                    out.append((n, "add", c.args[1], None))
+        s = n.ast
+        if n.kind == "stmt" and isinstance(s, (ast.Assign, ast.AugAssign, ast.AnnAssign)) and getattr(s, "value", None) is not None:
+            for t in _flat_targets(s):
+                # `s |= {x}` on a local that holds the set updates the set itself
+                alias = isinstance(s, ast.AugAssign) and isinstance(t, ast.Name) and nf.poly(ast.copy_location(ast.Name(id=t.id, ctx=ast.Load()), t), _as_stored(cfg, mi), n.id).canon() == "self.active_buffers"
+                if dotted(t) != "self.active_buffers" and not alias:
+                    continue
+                v = s.value
+                if isinstance(s, ast.AugAssign) and isinstance(s.op, ast.BitOr):
+                    el = _single_literal(v)
+                    out.append((n, "add", el, None) if el is not None else (n, "add-many", None, v))
+                elif isinstance(s, ast.Assign) and isinstance(v, ast.BinOp) and isinstance(v.op, ast.BitOr) and dotted(v.left) == "self.active_buffers":
+                    el = _single_literal(v.right)
+                    out.append((n, "add", el, None) if el is not None else (n, "add-many", None, v.right))
+                elif isinstance(s, ast.AugAssign):
+                    out.append((n, "remove", None, None))
+                else:
+                    out.append((n, "assign", None, v))
+    return out
+
+
+def _as_stored(cfg, mi):
+    sc = Scope(cfg, mi, {}, "stored")
+    sc.inline_self_attrs = False
+    return sc
+
+
+def _mt_add(ck, repo, nf):
+    cq = MT
     fn = _m(repo, cq, "add_sample")
     mi = fn._module
     cfg = nf.cfg_of(fn)
-    sc0 = Scope(None, mi, {}, cq)
-    SEL = "self.selected_task"
-    adds = stmt_calls(cfg, lambda c: isinstance(c.func, ast.Attribute) and c.func.attr == "add_sample")
-    ck.need(adds, f"{cq}.add_sample: no member add_sample call (anchor vanished)")
-    tgt_ok, fwd_ok = True, True
+    site = f"{cq}.add_sample"
+    adds = stmt_calls(cfg, lambda c: isinstance(c.func, ast.Attribute) and c.func.attr == "add_sample" and _is_base_call(repo, cq, mi, c, "add_sample") is None)
+    ck.need(adds, f"{site}: no member add_sample call (anchor vanished)")
+    tgt_ok = True
+    va, kw = fn.args.vararg.arg if fn.args.vararg else None, fn.args.kwarg.arg if fn.args.kwarg else None
     for n, c in adds:
-        ok_r = nf.poly(c.func.value, Scope(cfg, mi, {}, cq), n.id).canon() == f"self.buffers[{SEL}]"
-        tgt_ok &= ok_r
-        va, kw = fn.args.vararg.arg if fn.args.vararg else None, fn.args.kwarg.arg if fn.args.kwarg else None
-        fwd_ok &= [ast.unparse(a) for a in c.args] == ([f"*{va}"] if va else []) and [(k.arg, dotted(k.value)) for k in c.keywords] == ([(None, kw)] if kw else [])
+        rp_ = nf.poly(c.func.value, Scope(cfg, mi, {}, cq), n.id)
+        rc = rp_.canon()
+        if rc != f"self.buffers[{SEL}]":
+            m = nf.meta.get(rp_.single_atom() or "", {})
+            if not (m.get("fn") in ("subscript", "proj") and m.get("args") and m["args"][0].canon() == "self.buffers" and rc.startswith("self.buffers[") and ingredient_tokens(Poly.atom(rc[len("self.buffers["):-1])) <= {"self", "selected_task", "sampled_task_idx"}):
+                raise AnalysisError(f"{site}: the transition is added to `{rc[:60]}` (unrecognised form)")
+            tgt_ok = False        # another, known member: a constant index or another routing attribute
+        fwd = [dotted(a.value) if isinstance(a, ast.Starred) else None for a in c.args] == ([va] if va else []) and [(k.arg, dotted(k.value)) for k in c.keywords] == ([(None, kw)] if kw else [])
+        if not fwd:
+            raise AnalysisError(f"{site}: `{short(c, 60)}` - whether the transition is forwarded unchanged is not decided (unrecognised form)")
     once = on_every_path_once(cfg, [n.id for n, _ in adds])
-    ok = tgt_ok and fwd_ok and once
-    why = "" if ok else ("additions must go to buffers[selected_task] only" if not tgt_ok else "the transition must be forwarded unchanged" if not fwd_ok else "exactly one member buffer receives the transition on every path")
-    ck.ob("R5-task-routing", f"{cq}.add_sample", "routes-to-selected-task", ok, "; ".join(short(c, 70) for _, c in adds), why, loc(mi, fn))
-    marks = stmt_calls(cfg, lambda c: isinstance(c.func, ast.Attribute) and dotted(c.func.value) == "self.active_buffers")
-    okm = False
-    if len(marks) == 1 and marks[0][1].func.attr == "add" and len(marks[0][1].args) == 1:
-        marked = nf.poly(marks[0][1].args[0], Scope(cfg, mi, {}, cq), marks[0][0].id).canon()
+    ok = tgt_ok and once
+    why = "" if ok else ("additions must go to buffers[selected_task] only" if not tgt_ok else "exactly one member buffer receives the transition on every path")
+    ck.ob("R5-task-routing", site, "routes-to-selected-task", ok, "; ".join(short(c, 70) for _, c in adds), why, loc(mi, fn))
+    # the task that received the transition becomes active
+    changes = _active_changes(nf, cfg, mi, fn)
+    if not changes:
+        raise AnalysisError(f"{site}: no statement that marks a task active found (unrecognised form)")
+    if any(how in ("remove", "assign") for _, how, _, _ in changes):
+        raise AnalysisError(f"{site}: the active set is rebuilt / reduced here (unrecognised form)")
+    shown = "; ".join(short(n.ast, 60) for n, _, _, _ in changes)
+    okm, whym = True, ""
+    marks = []
+    for n, how, el, whole in changes:
+        if how == "add-many":
+            wp = nf.poly(whole, Scope(cfg, mi, {}, cq), n.id) if whole is not None else None
+            if wp is None or not (ingredient_tokens(wp) <= {"range", "len", "self", "buffers", "n_tasks", "arange", "list", "set"}):
+                raise AnalysisError(f"{site}: the active set receives `{short(whole, 50) if whole is not None else '?'}` (unrecognised form)")
+            okm, whym = False, "every task is marked active, not the one that received the transition"
+            continue
+        mp = nf.poly(el, Scope(cfg, mi, {}, cq), n.id)
+        marked = mp.canon()
         # the task is identified by its index or, equivalently, by its member buffer
         if marked in (SEL, f"self.buffers[{SEL}]"):
-            okm = on_every_path_once(cfg, [marks[0][0].id])
-            if not okm:
-                # `if x not in s: s.add(x)` is the unconditional add: the only way around the add is the arm on which x is a member already
-                deps = cfg.control_deps(marks[0][0].id)
-                member_guard = []
-                for b_, lab_ in deps:
-                    t_ = getattr(cfg.nodes[b_].ast, "test", None)
-                    neg_ = False
-                    while isinstance(t_, ast.UnaryOp) and isinstance(t_.op, ast.Not):
-                        t_, neg_ = t_.operand, not neg_
-                    if isinstance(t_, ast.Compare) and len(t_.ops) == 1 and isinstance(t_.ops[0], (ast.In, ast.NotIn)) and dotted(t_.comparators[0]) == "self.active_buffers" \
-                            and nf.poly(t_.left, Scope(cfg, mi, {}, cq), b_).canon() == marked and ((isinstance(t_.ops[0], ast.NotIn) != neg_) == lab_):
-                        member_guard.append(b_)
-                if deps and len(member_guard) == len(deps):
-                    # every path from the entry reaches the membership test exactly once
-                    okm = on_every_path_once(cfg, [member_guard[-1]])
-        elif "selected_task" in marked:
-            raise AnalysisError(f"{cq}.add_sample: the active set receives `{marked[:60]}` (unrecognised form)")
-    ck.ob("R5-task-routing", f"{cq}.add_sample", "marks-selected-task-active", okm, "; ".join(short(c, 60) for _, c in marks), "" if okm else "exactly the task that received the transition becomes active (anything else lets sample_batch draw a task without data, or never draw one that has data)", loc(mi, fn))
-    # who may change the active set: only add_sample (and __init__)
-    mcls = repo.cls(cq)
-    for meth in mcls.body:
-        if isinstance(meth, ast.FunctionDef) and meth.name not in ("add_sample", "__init__"):
-            for x in ast.walk(meth):
-                hit = (isinstance(x, ast.Call) and isinstance(x.func, ast.Attribute) and dotted(x.func.value) == "self.active_buffers" and x.func.attr in ("add", "update", "discard", "remove", "clear", "pop", "difference_update", "intersection_update")) or \
-                      (isinstance(x, (ast.Assign, ast.AugAssign)) and dotted(x.targets[0] if isinstance(x, ast.Assign) else x.target) == "self.active_buffers")
-                if hit:
-                    ck.ob("R5-task-routing", f"{cq}.{meth.name}", "active-set-owner", False, short(x, 60), "a task becomes active only when a transition is added to it: marking it elsewhere lets sample_batch draw a task without data", loc(mcls._module, x))
-    ck.ob("R5-task-routing", cq, "active-set-owner", True, "active_buffers is changed only by add_sample", "", loc(mcls._module, mcls))
-    # select_task validates
+            marks.append((n, marked, el))
+        elif mp.is_const() or ingredient_tokens(mp) <= {"self", "sampled_task_idx", "buffers"}:
+            okm, whym = False, f"`{marked[:40]}` is marked active, not the task that received the transition"
+        else:
+            raise AnalysisError(f"{site}: the active set receives `{marked[:60]}` (unrecognised form)")
+    if okm:
+        ids = [n.id for n, _, _ in marks]
+        okm = on_every_path_once(cfg, ids)
+        if not okm and len(marks) == 1:
+            # `if x not in s: s.add(x)` is the unconditional add: the only way around the add is the arm on which x is a member already
+            n0, marked, _ = marks[0]
+            deps = cfg.control_deps(n0.id)
+            member_guard = []
+            for b_, lab_ in deps:
+                t_ = getattr(cfg.nodes[b_].ast, "test", None)
+                neg_ = False
+                while isinstance(t_, ast.UnaryOp) and isinstance(t_.op, ast.Not):
+                    t_, neg_ = t_.operand, not neg_
+                if isinstance(t_, ast.Compare) and len(t_.ops) == 1 and isinstance(t_.ops[0], (ast.In, ast.NotIn)) and nf.poly(t_.comparators[0], _as_stored(cfg, mi), b_).canon() == "self.active_buffers" \
+                        and nf.poly(t_.left, Scope(cfg, mi, {}, cq), b_).canon() == marked and ((isinstance(t_.ops[0], ast.NotIn) != neg_) == lab_):
+                    member_guard.append(b_)
+            if deps and len(member_guard) == len(deps):
+                # every path from the entry reaches the membership test exactly once
+                okm = on_every_path_once(cfg, [member_guard[-1]])
+        if not okm:
+            whym = "the task that received the transition is not marked active on every path"
+    ck.ob("R5-task-routing", site, "marks-selected-task-active", okm, shown, "" if okm else whym + " (anything else lets sample_batch draw a task without data, or never draw one that has data)", loc(mi, fn))
+
+
+def _mt_owner(ck, repo, nf):
+    """Who may change the active set: only add_sample (and the constructors)."""
+    cq = MT
+    hits, unread = 0, None
+    for c in repo.mro(cq):
+        cn = repo.cls(c)
+        for meth in cn.body:
+            if not isinstance(meth, ast.FunctionDef) or meth.name in ("add_sample", "__init__", "__setstate__", "__getstate__") or repo.method(cq, meth.name)[1] is not meth:
+                continue
+            meth._module = cn._module
+            for n, how, el, whole in _active_changes(nf, nf.cfg_of(meth), cn._module, meth):
+                if how in ("add", "add-many"):
+                    hits += 1
+                    ck.ob("R5-task-routing", f"{cq}.{meth.name}", "active-set-owner", False, short(n.ast, 60), "a task becomes active only when a transition is added to it: marking it elsewhere lets sample_batch draw a task without data", loc(cn._module, n.ast))
+                else:
+                    unread = unread or f"{cq}.{meth.name}: `{short(n.ast, 60)}` rebuilds / reduces the active set (unrecognised form)"
+    if unread:
+        raise AnalysisError(unread)
+    if not hits:
+        ck.ob("R5-task-routing", cq, "active-set-owner", True, "active_buffers is changed only by add_sample", "", loc(repo.cls(cq)._module, repo.cls(cq)))
+
+
+def _mt_select(ck, repo, nf):
+    cq = MT
     fn = _m(repo, cq, "select_task")
+    mi = fn._module
     cfg = nf.cfg_of(fn)
-    tid = [p for p in positional_params(fn) if p != "self"][0]
-    sets = [n for n in cfg.nodes if n.kind == "stmt" and isinstance(n.ast, ast.Assign) and dotted(n.ast.targets[0]) == SEL]
-    ck.need(len(sets) >= 1, f"{cq}.select_task: no assignment of selected_task")
+    site = f"{cq}.select_task"
+    ps = [p for p in param_names(fn) if p != "self"]
+    ck.need(ps, f"{site}: no task parameter (anchor vanished)")
+    tid = ps[0]
+    sets = [n for n in cfg.nodes if n.kind == "stmt" and isinstance(n.ast, (ast.Assign, ast.AnnAssign)) and getattr(n.ast, "value", None) is not None and any(dotted(t) == SEL for t in _flat_targets(n.ast))]
+    ck.need(len(sets) >= 1, f"{site}: no assignment of selected_task (unrecognised form)")
+    lower = {spec(nf, mi, f"0 <= {tid}"), spec(nf, mi, f"-1 < {tid}")}
+    upper = {spec(nf, mi, f"{tid} < len(self.buffers)"), spec(nf, mi, f"{tid} <= len(self.buffers) - 1")}
+    rng_form = spec(nf, mi, f"{tid} in range(len(self.buffers))")
+    from ..sem import _flatten_and, _negate
+    bounds = lower | upper
+
+    def read_use(n) -> bool:
+        """A statement that mentions the task id and is read completely: the store, a raise (message), a test made of the bounds only."""
+        if n.kind == "stmt" and isinstance(n.ast, ast.Raise):
+            return True
+        if n.kind == "test" and isinstance(n.ast, ast.If):
+            lits = _flatten_and(nf.poly(n.ast.test, Scope(cfg, mi, {}, cq), n.id).canon())
+            if len(lits) == 1 and lits[0].startswith("not(") and lits[0].endswith(")"):
+                lits = [_negate(x) for x in _flatten_and(lits[0][4:-1])]
+            if len(lits) == 1 and lits[0].startswith("or(") and lits[0].endswith(")"):
+                lits = [_negate(x) for x in _flatten_and("and(" + lits[0][3:])]
+            return all(x in bounds or _negate(x) in bounds for x in lits)
+        return False
+    mentions = [n for n in cfg.nodes if n.ast is not None and n.kind in ("stmt", "test", "for", "with") and any(isinstance(x, ast.Name) and x.id == tid and isinstance(x.ctx, ast.Load) for x in ast.walk(
+        n.ast.test if n.kind == "test" and hasattr(n.ast, "test") else n.ast.iter if n.kind == "for" else n.ast))]
     for st in sets:
+        ck.need(len(_flat_targets(st.ast)) == 1, f"{site}: `{short(st.ast, 60)}` (unrecognised form)")
         g = set(guard_literals(nf, cfg, mi, st.id, inline=True))
-        val = nf.poly(st.ast.value, Scope(cfg, mi, {}, cq), st.id).canon()
-        lower = {spec(nf, mi, f"0 <= {tid}"), spec(nf, mi, f"-1 < {tid}")}
-        upper = {spec(nf, mi, f"{tid} < len(self.buffers)"), spec(nf, mi, f"{tid} <= len(self.buffers) - 1")}
-        rng_form = spec(nf, mi, f"{tid} in range(len(self.buffers))")
-        ok = val == tid and ((g & lower and g & upper) or rng_form in g)
-        ck.ob("R5-task-routing", f"{cq}.select_task", "validated", ok, f"selected_task = {val} under {sorted(g)}", "" if ok else "a task id must be stored only if 0 <= task_id < n_tasks (otherwise additions go to the wrong task via negative indexing, or fail later)", loc(mi, st.ast))
-    # sample_batch: one member among the active ones
+        vp = nf.poly(st.ast.value, Scope(cfg, mi, {}, cq), st.id)
+        val = vp.canon()
+        if val != tid:
+            raise AnalysisError(f"{site}: selected_task = `{val[:60]}` is not the requested task id (unrecognised form)")
+        ok = bool((g & lower and g & upper) or rng_form in g)
+        if not ok:
+            # evidence of a missing bound: every condition on the task id is one of the bounds this rule reads, and one side is not among them
+            about_tid = {x for x in g if tid in ingredient_tokens(Poly.atom(x))}
+            if not about_tid <= bounds or not all(n is st or read_use(n) for n in mentions):
+                raise AnalysisError(f"{site}: selected_task = {val} under {sorted(g)} - validation not recognised (unrecognised form)")
+        ck.ob("R5-task-routing", site, "validated", ok, f"selected_task = {val} under {sorted(g)}", "" if ok else "a task id must be stored only if 0 <= task_id < n_tasks (otherwise additions go to the wrong task via negative indexing, or fail later)", loc(mi, st.ast))
+
+
+def _mt_sample(ck, repo, nf):
+    cq = MT
     fn = _m(repo, cq, "sample_batch")
+    mi = fn._module
     cfg = nf.cfg_of(fn)
+    site = f"{cq}.sample_batch"
     samples = [(n_, c_) for n_, c_ in stmt_calls(cfg, lambda c: isinstance(c.func, ast.Attribute) and c.func.attr == "sample_batch") if recv_canon(nf, cfg, mi, n_, c_).startswith("self.buffers[")]
-    ck.need(len(samples) == 1, f"{cq}.sample_batch: expected one member sample_batch call")
+    ck.need(len(samples) == 1, f"{site}: expected one member sample_batch call")
     n, c = samples[0]
     rv_ = c.func.value
     if isinstance(rv_, ast.Name):
         ds_ = cfg.defs_of(n.id, rv_.id)
-        ck.need(len(ds_) == 1 and ds_[0].kind == "assign" and isinstance(ds_[0].value, ast.Subscript), f"{cq}.sample_batch: member alias `{rv_.id}` not recognised")
+        ck.need(len(ds_) == 1 and ds_[0].kind == "assign" and isinstance(ds_[0].value, ast.Subscript), f"{site}: member alias `{rv_.id}` not recognised")
         rv_ = ds_[0].value
+    ck.need(isinstance(rv_, ast.Subscript), f"{site}: member `{short(rv_, 40)}` not recognised")
     ixe = rv_.slice
     # the index value: through attribute store / local
     src = None
     if isinstance(ixe, ast.Attribute) and dotted(ixe.value) == "self":
-        w = [m for m in cfg.nodes if m.kind == "stmt" and isinstance(m.ast, ast.Assign) and any(dotted(t) == dotted(ixe) for t in m.ast.targets)]
-        if len(w) == 1 and cfg.dominates(w[0].id, n.id):
+        w = [m for m in cfg.nodes if m.kind == "stmt" and isinstance(m.ast, (ast.Assign, ast.AnnAssign)) and getattr(m.ast, "value", None) is not None and any(dotted(t) == dotted(ixe) for t in _flat_targets(m.ast))]
+        if len(w) == 1 and cfg.dominates(w[0].id, n.id) and len(_flat_targets(w[0].ast)) == 1:
             src = (w[0].ast.value, w[0].id)
     elif isinstance(ixe, ast.Name):
         ds = cfg.defs_of(n.id, ixe.id)
         if len(ds) == 1 and ds[0].kind == "assign":
             src = (ds[0].value, ds[0].node)
-    ck.need(src is not None, f"{cq}.sample_batch: the sampled member index `{short(ixe)}` has no single dominating definition (unrecognised idiom)")
+    ck.need(src is not None, f"{site}: the sampled member index `{short(ixe)}` has no single dominating definition (unrecognised idiom)")
     choice = [x for x in ast.walk(src[0]) if isinstance(x, ast.Call) and isinstance(x.func, ast.Attribute) and x.func.attr in ("choice", "integers", "randint")]
-    ck.need(len(choice) == 1, f"{cq}.sample_batch: member index `{short(src[0], 60)}` is not one random draw (unrecognised idiom)")
-    pop = nf.poly(choice[0].args[0], Scope(cfg, mi, {}, cq), src[1]).canon() if choice[0].args else "?"
+    if len(choice) != 1 and isinstance(src[0], ast.Name):
+        ds = cfg.defs_of(src[1], src[0].id)
+        if len(ds) == 1 and ds[0].kind == "assign":
+            src = (ds[0].value, ds[0].node)
+            choice = [x for x in ast.walk(src[0]) if isinstance(x, ast.Call) and isinstance(x.func, ast.Attribute) and x.func.attr in ("choice", "integers", "randint")]
+    ck.need(len(choice) == 1, f"{site}: member index `{short(src[0], 60)}` is not one random draw (unrecognised idiom)")
+    popx = arg_of(choice[0], 0, "a") if choice[0].func.attr == "choice" else None
+    if popx is None:
+        raise AnalysisError(f"{site}: population of the member draw `{short(choice[0], 60)}` not recognised")
+    pop = nf.poly(popx, Scope(cfg, mi, {}, cq), src[1]).canon()
     from_active = "self.active_buffers" in pop and "self.buffers" not in pop.replace("self.active_buffers", "")
     from_all = "self.buffers" in pop.replace("self.active_buffers", "") or "n_tasks" in pop
     if not from_active and not from_all:
-        raise AnalysisError(f"{cq}.sample_batch: population `{pop}` of the member draw not recognised")
-    ck.ob("R5-task-routing", f"{cq}.sample_batch", "single-active-task", from_active, f"member ~ {short(choice[0], 70)}; batch from buffers[{short(ixe)}]",
+        raise AnalysisError(f"{site}: population `{pop}` of the member draw not recognised")
+    ck.ob("R5-task-routing", site, "single-active-task", from_active, f"member ~ {short(choice[0], 70)}; batch from buffers[{short(ixe)}]",
           "" if from_active else "the member must be drawn among the tasks that already have data (active_buffers), not among all tasks", loc(mi, choice[0]))
     isret = isinstance(n.ast, ast.Return)
+    if not isret and isinstance(n.ast, ast.Assign) and len(n.ast.targets) == 1 and isinstance(n.ast.targets[0], ast.Name) and n.ast.value is c:
+        # `batch = member.sample_batch(...); return batch`
+        nm = n.ast.targets[0].id
+        rets = [r for r in cfg.nodes if r.kind == "stmt" and isinstance(r.ast, ast.Return)]
+        isret = bool(rets) and all(isinstance(r.ast.value, ast.Name) and r.ast.value.id == nm and [d.node for d in cfg.defs_of(r.id, nm)] == [n.id] for r in rets)
     if not isret:
-        raise AnalysisError(f"{cq}.sample_batch: member batch is post-processed before it is returned (unrecognised idiom)")
-    ck.ob("R5-task-routing", f"{cq}.sample_batch", "returns-member-batch", True, f"return {short(c, 70)}", "", loc(mi, c))
-    # __len__ : total over members
+        raise AnalysisError(f"{site}: member batch is post-processed before it is returned (unrecognised idiom)")
+    ck.ob("R5-task-routing", site, "returns-member-batch", True, f"return {short(c, 70)}", "", loc(mi, c))
+
+
+def _mt_len(ck, repo, nf):
+    cq = MT
     fn = _m(repo, cq, "__len__")
-    rets = [r for r in ast.walk(fn) if isinstance(r, ast.Return)]
-    ck.need(len(rets) == 1, f"{cq}.__len__: expected one return")
-    rv = rets[0].value
+    cfg = nf.cfg_of(fn)
+    site = f"{cq}.__len__"
+    rets = [r for r in cfg.nodes if r.kind == "stmt" and isinstance(r.ast, ast.Return) and r.ast.value is not None]
+    ck.need(len(rets) == 1, f"{site}: expected one return")
+    rv = rets[0].ast.value
+    for _ in range(4):
+        rv = _peel_len(rv)
+        if isinstance(rv, ast.Name):
+            ds = cfg.defs_of(rets[0].id, rv.id)
+            if len(ds) == 1 and ds[0].kind == "assign":
+                rv = ds[0].value
+                continue
+        break
     tot = False
-    if isinstance(rv, ast.Call) and dotted(rv.func) == "sum" and rv.args:
+    if isinstance(rv, ast.Call) and dotted(rv.func) in ("sum", "np.sum", "numpy.sum") and rv.args and not rv.keywords:
         a0 = rv.args[0]
         if isinstance(a0, (ast.GeneratorExp, ast.ListComp)) and len(a0.generators) == 1 and dotted(a0.generators[0].iter) == "self.buffers" and not a0.generators[0].ifs and isinstance(a0.generators[0].target, ast.Name):
             t = a0.generators[0].target.id
-            tot = ast.unparse(a0.elt) in (f"len({t})", f"{t}.current_len", f"{t}.__len__()")
+            el = a0.elt
+            tot = (isinstance(el, ast.Call) and dotted(el.func) == "len" and len(el.args) == 1 and dotted(el.args[0]) == t and not el.keywords) or dotted(el) == f"{t}.current_len" \
+                or (isinstance(el, ast.Call) and dotted(el.func) == f"{t}.__len__" and not el.args and not el.keywords)
         if isinstance(a0, ast.Call) and dotted(a0.func) == "map" and len(a0.args) == 2 and dotted(a0.args[0]) == "len" and dotted(a0.args[1]) == "self.buffers":
             tot = True
-    if not tot and "self.buffers[" not in ast.unparse(rv) and "selected_task" not in ast.unparse(rv):
-        raise AnalysisError(f"{cq}.__len__: `{short(rv, 60)}` not recognised as the total over the member buffers")
-    ck.ob("R6-length", f"{cq}.__len__", "sum-over-tasks", tot, f"return {short(rv, 70)}", "" if tot else "length must be the total over all task buffers, not that of one member", loc(fn._module, fn))
-    # __init__: independent member buffers, nothing active
+    if not tot:
+        # known other provenance: the length of one member
+        vp = nf.poly(rv, Scope(cfg, fn._module, {}, cq), rets[0].id)
+        m = nf.meta.get(vp.single_atom() or "", {})
+        inner = m["args"][0] if m.get("fn") in ("len", "attr") and m.get("args") else None
+        im = nf.meta.get(inner.single_atom() or "", {}) if inner is not None else {}
+        if not (im.get("fn") in ("subscript", "proj") and im.get("args") and im["args"][0].canon() == "self.buffers"):
+            raise AnalysisError(f"{site}: `{short(rv, 60)}` not recognised as the total over the member buffers")
+    ck.ob("R6-length", site, "sum-over-tasks", tot, f"return {short(rv, 70)}", "" if tot else "length must be the total over all task buffers, not that of one member", loc(fn._module, fn))
+
+
+def _peel_len(e):
+    while isinstance(e, ast.Call) and isinstance(e.func, ast.Name) and e.func.id == "int" and len(e.args) == 1 and not e.keywords:
+        e = e.args[0]
+    return e
+
+
+def _mt_init(ck, repo, nf):
+    """__init__: independent member buffers, nothing active."""
+    cq = MT
     fn = _m(repo, cq, "__init__")
+    mi = fn._module
     cfg = nf.cfg_of(fn)
-    rb = [p for p in positional_params(fn) if p != "self"][0]
+    site = f"{cq}.__init__"
+    ps = [p for p in param_names(fn) if p != "self"]
+    ck.need(ps, f"{site}: no replay buffer parameter (anchor vanished)")
+    rb = ps[0]
     apps = stmt_calls(cfg, lambda c: isinstance(c.func, ast.Attribute) and dotted(c.func.value) == "self.buffers" and c.func.attr in ("append", "extend", "insert"))
-    inits = [m for m in cfg.nodes if m.kind == "stmt" and isinstance(m.ast, ast.Assign) and dotted(m.ast.targets[0]) == "self.buffers"]
+    inits = [m for m in cfg.nodes if m.kind == "stmt" and isinstance(m.ast, (ast.Assign, ast.AnnAssign)) and getattr(m.ast, "value", None) is not None and any(dotted(t) == "self.buffers" for t in _flat_targets(m.ast))]
+    ck.need(inits, f"{site}: no assignment of self.buffers (unrecognised form)")
     aliased = []
+
     def _members(v):
         """[(element expr, repeated?)] of a list-valued expression, or None when its construction is not read."""
         if isinstance(v, ast.List):
@@ -482,32 +1360,48 @@ def _multitask(ck, repo, nf):
         return None
 
     def _fresh(e):
-        return isinstance(e, ast.Call) and dotted(e.func) in ("copy.deepcopy", "deepcopy")
+        return isinstance(e, ast.Call) and isinstance(e.func, (ast.Name, ast.Attribute)) and repo.resolve_expr(mi, e.func) == "copy.deepcopy" and len(e.args) == 1 and dotted(e.args[0]) == rb
     for m in inits:
         v = m.ast.value
         ms = _members(v)
-        if ms is None:
-            raise AnalysisError(f"{cq}.__init__: member construction `{short(v, 60)}` not recognised")
+        if ms is None or len(_flat_targets(m.ast)) != 1:
+            raise AnalysisError(f"{site}: member construction `{short(v, 60)}` not recognised")
         bare = [(e, r_) for e, r_ in ms if dotted(e) == rb]
         other = [e for e, r_ in ms if dotted(e) != rb and not _fresh(e)]
         if other:
-            raise AnalysisError(f"{cq}.__init__: member construction `{short(v, 60)}` not recognised")
+            raise AnalysisError(f"{site}: member construction `{short(v, 60)}` not recognised")
         # the same object in two slots: a repeated bare element, or more than one bare occurrence (the caller's buffer may be one member)
         if any(r_ for _e, r_ in bare) or len(bare) > 1:
             aliased.append(short(m.ast, 60))
-    for _, c in apps:
-        a = c.args[-1] if c.args else None
-        if dotted(a) == rb:
+    for n_, c in apps:
+        a = c.args[-1] if c.args and not c.keywords else None
+        if isinstance(a, ast.Name) and a.id != rb:
+            ds = cfg.defs_of(n_.id, a.id)
+            if len(ds) == 1 and ds[0].kind == "assign":
+                a = ds[0].value
+        if a is not None and c.func.attr in ("append", "insert") and dotted(a) == rb:
             aliased.append(short(c, 60))
-        elif not (isinstance(a, ast.Call) and dotted(a.func) in ("copy.deepcopy", "deepcopy")):
-            raise AnalysisError(f"{cq}.__init__: member construction `{short(c, 60)}` not recognised")
-    act = [m for m in cfg.nodes if m.kind == "stmt" and isinstance(m.ast, ast.Assign) and dotted(m.ast.targets[0]) == "self.active_buffers"]
-    empty = len(act) == 1 and ast.unparse(act[0].ast.value) in ("set()", "set([])", "set(())")
-    if len(act) == 1 and not empty and not isinstance(act[0].ast.value, (ast.Call, ast.Set, ast.SetComp)):
-        raise AnalysisError(f"{cq}.__init__: initial active set `{short(act[0].ast.value)}` not recognised")
+        elif not (a is not None and c.func.attr in ("append", "insert") and _fresh(a)):
+            raise AnalysisError(f"{site}: member construction `{short(c, 60)}` not recognised")
+    act = [m for m in cfg.nodes if m.kind == "stmt" and isinstance(m.ast, (ast.Assign, ast.AnnAssign)) and getattr(m.ast, "value", None) is not None and any(dotted(t) == "self.active_buffers" for t in _flat_targets(m.ast))]
+    if len(act) != 1 or len(_flat_targets(act[0].ast)) != 1:
+        raise AnalysisError(f"{site}: the initial active set is not one assignment (unrecognised form)")
+    av = act[0].ast.value
+    empty = isinstance(av, ast.Call) and dotted(av.func) == "set" and not av.keywords and (not av.args or (len(av.args) == 1 and isinstance(av.args[0], (ast.List, ast.Tuple)) and not av.args[0].elts))
+    if not empty:
+        # evidence of a non-empty start: a set display with elements, or set(...) of a non-empty display / a range over the tasks
+        nonempty = (isinstance(av, ast.Set) and av.elts) or (isinstance(av, ast.Call) and dotted(av.func) == "set" and len(av.args) == 1 and not av.keywords and (
+            (isinstance(av.args[0], (ast.List, ast.Tuple, ast.Set)) and av.args[0].elts) or (isinstance(av.args[0], ast.Call) and dotted(av.args[0].func) == "range")))
+        if not nonempty:
+            raise AnalysisError(f"{site}: initial active set `{short(av)}` not recognised")
     ok = not aliased and empty
-    ck.ob("R5-task-routing", f"{cq}.__init__", "independent-buffers", ok, f"members: first = {rb}, others deep copies; active_buffers initially {short(act[0].ast.value) if act else None}",
+    ck.ob("R5-task-routing", site, "independent-buffers", ok, f"members: first = {rb}, others deep copies; active_buffers initially {short(av)}",
           "" if ok else (f"{aliased} shares one buffer object between tasks: additions to one task appear in the others" if aliased else "no task may be active before data has been added to it"), loc(fn._module, fn))
+
+
+def _multitask(ck, repo, nf):
+    for part in (_mt_owner, _mt_add, _mt_select, _mt_sample, _mt_len, _mt_init):
+        ck.guard(part, ck, repo, nf)
 
 
 def run(ck, repo: Repo, tier: str):
@@ -541,6 +1435,20 @@ MUTANTS = [
     {"id": "c02-mt-no-validation", "file": _F, "rule": "R5", "find": "        if 0 <= task_id < len(self.buffers):\n            self.selected_task = task_id", "replace": "        if task_id < len(self.buffers):\n            self.selected_task = task_id"},
     {"id": "c02-mt-sample-any", "file": _F, "rule": "R5", "find": "        self.sampled_task_idx = rng.choice(list(self.active_buffers), size=1)[0]", "replace": "        self.sampled_task_idx = rng.choice(len(self.buffers), size=1)[0]"},
     {"id": "c02-len-capacity", "file": _F, "rule": "R6", "nth": 0, "find": "        \"\"\"Return current number of stored transitions in the replay buffer.\"\"\"\n        return self.current_len", "replace": "        \"\"\"Return current number of stored transitions in the replay buffer.\"\"\"\n        return self.buffer_size"},
+    {"id": "c02-advance-reset-off-by-one", "file": _F, "rule": "R1", "find": _RING, "replace": _RING.replace("        self.insert_idx = (self.insert_idx + 1) % self.buffer_size\n", "        if self.insert_idx + 1 > self.buffer_size:\n            self.insert_idx = 0\n        else:\n            self.insert_idx += 1\n")},
+    {"id": "c02-len-increment-overshoots", "file": _F, "rule": "R1", "find": _RING, "replace": _RING.replace("        self.current_len = min(self.current_len + 1, self.buffer_size)", "        if self.current_len <= self.buffer_size:\n            self.current_len += 1")},
+    {"id": "c02-len-high-water-of-advanced-cursor", "file": _F, "rule": "R1", "find": _RING, "replace": _RING.replace("min(self.current_len + 1, self.buffer_size)", "max(self.current_len, self.insert_idx)")},
+    {"id": "c02-store-at-current-len", "file": _F, "rule": "R1", "nth": 0, "find": "        for k, v in sample.items():\n            self.buffer[k][self.insert_idx] = v\n        self.insert_idx", "replace": "        for k, v in sample.items():\n            self.buffer[k][self.current_len] = v\n        self.insert_idx"},
+    {"id": "c02-alloc-dtype-float", "file": _F, "rule": "R4", "nth": 0, "find": "                    (self.buffer_size,) + np.asarray(v).shape,\n                    dtype=self.buffer[k].dtype,\n", "replace": "                    (self.buffer_size,) + np.asarray(v).shape,\n                    dtype=float,\n"},
+    {"id": "c02-alloc-one-row-short", "file": _F, "rule": "R4", "nth": 0, "find": "                    (self.buffer_size,) + np.asarray(v).shape,\n                    dtype=self.buffer[k].dtype,\n", "replace": "                    (self.buffer_size - 1,) + np.asarray(v).shape,\n                    dtype=self.buffer[k].dtype,\n"},
+    {"id": "c02-alloc-guard-le-one", "file": _F, "rule": "R4", "nth": 0, "find": "        if self.current_len == 0:\n            for k, v in sample.items():", "replace": "        if self.current_len <= 1:\n            for k, v in sample.items():"},
+    {"id": "c02-integers-endpoint-inclusive", "file": _F, "rule": "R3", "find": "        indices = rng.integers(0, self.current_len, batch_size)", "replace": "        indices = rng.integers(0, self.current_len, batch_size, endpoint=True)"},
+    {"id": "c02-lap-sampler-insert-idx", "file": _F, "rule": "R3", "find": "        indices = self.priority.prioritized_sampling(\n            self.current_len, batch_size, rng\n        )", "replace": "        indices = self.priority.prioritized_sampling(\n            batch_size=batch_size, rng=rng, current_len=self.insert_idx\n        )"},
+    {"id": "c02-mt-mark-sampled-task", "file": _F, "rule": "R5", "find": "        self.active_buffers.add(self.selected_task)", "replace": "        self.active_buffers |= {self.sampled_task_idx}"},
+    {"id": "c02-mt-active-ior-on-select", "file": _F, "rule": "R5", "find": "        if 0 <= task_id < len(self.buffers):\n            self.selected_task = task_id\n", "replace": "        if 0 <= task_id < len(self.buffers):\n            self.selected_task = task_id\n            self.active_buffers |= {task_id}\n"},
+    {"id": "c02-mt-init-all-active", "file": _F, "rule": "R5", "find": "        self.selected_task = 0\n        self.active_buffers = set()", "replace": "        self.selected_task = 0\n        self.active_buffers: set[int] = set(range(n_tasks))"},
+    {"id": "c02-mt-len-first-member", "file": _F, "rule": "R6", "find": "        return sum(len(buffer) for buffer in self.buffers)", "replace": "        total = self.buffers[0].current_len\n        return total"},
+    {"id": "c02-lap-len-capacity", "file": _F, "rule": "R6", "find": "    def update_priority(self, priority):\n        self.priority.update_priority(priority)\n\n    def reset_max_priority(self):\n        self.priority.reset_max_priority(self.current_len)\n\nclass PrioritizedReplayBuffer", "replace": "    def __len__(self):\n        return self.buffer_size\n\n    def update_priority(self, priority):\n        self.priority.update_priority(priority)\n\n    def reset_max_priority(self):\n        self.priority.reset_max_priority(self.current_len)\n\nclass PrioritizedReplayBuffer"},
 ]
 _ALLOC = "        if self.current_len == 0:\n            for k, v in sample.items():\n                assert k in self.buffer, f\"{k} not in {self.buffer.keys()}\"\n                self.buffer[k] = np.empty(\n                    (self.buffer_size,) + np.asarray(v).shape,\n                    dtype=self.buffer[k].dtype,\n                )\n        for k, v in sample.items():\n            self.buffer[k][self.insert_idx] = v\n        self.insert_idx = (self.insert_idx + 1) % self.buffer_size\n        self.current_len = min(self.current_len + 1, self.buffer_size)\n\n    def sample_batch(\n        self, batch_size: int, rng: np.random.Generator\n    ) -> tuple[jnp.ndarray]:"
 BENIGN = [
@@ -556,4 +1464,22 @@ BENIGN = [
     {"id": "c02-b-alloc-helper", "file": _F, "find": _ALLOC, "replace": "        if self.current_len == 0:\n            self._allocate(sample)\n        for k, v in sample.items():\n            self.buffer[k][self.insert_idx] = v\n        self.insert_idx = (self.insert_idx + 1) % self.buffer_size\n        self.current_len = min(self.current_len + 1, self.buffer_size)\n\n    def _allocate(self, sample):\n        for k, v in sample.items():\n            assert k in self.buffer\n            self.buffer[k] = np.empty(\n                (self.buffer_size,) + np.asarray(v).shape,\n                dtype=self.buffer[k].dtype,\n            )\n\n    def sample_batch(\n        self, batch_size: int, rng: np.random.Generator\n    ) -> tuple[jnp.ndarray]:"},
     {"id": "c02-b-len-first", "file": _F, "find": _RING, "replace": _RING.replace("        self.insert_idx = (self.insert_idx + 1) % self.buffer_size\n        self.current_len = min(self.current_len + 1, self.buffer_size)", "        self.current_len = min(self.current_len + 1, self.buffer_size)\n        self.insert_idx = (self.insert_idx + 1) % self.buffer_size")},
     {"id": "c02-b-advance-commuted", "file": _F, "find": _RING, "replace": _RING.replace("(self.insert_idx + 1) % self.buffer_size", "(1 + self.insert_idx) % self.buffer_size")},
+    {"id": "c02-b-advance-compare-and-reset", "file": _F, "find": _RING, "replace": _RING.replace("        self.insert_idx = (self.insert_idx + 1) % self.buffer_size\n", "        self.insert_idx += 1\n        if self.insert_idx == self.buffer_size:\n            self.insert_idx = 0\n")},
+    {"id": "c02-b-advance-conditional-expression", "file": _F, "find": _RING, "replace": _RING.replace("        self.insert_idx = (self.insert_idx + 1) % self.buffer_size\n", "        nxt = self.insert_idx + 1\n        self.insert_idx = 0 if nxt >= self.buffer_size else nxt\n")},
+    {"id": "c02-b-len-conditional-increment", "file": _F, "find": _RING, "replace": _RING.replace("        self.current_len = min(self.current_len + 1, self.buffer_size)", "        if self.current_len < self.buffer_size:\n            self.current_len += 1")},
+    {"id": "c02-b-len-increment-then-clip", "file": _F, "find": _RING, "replace": _RING.replace("        self.current_len = min(self.current_len + 1, self.buffer_size)", "        self.current_len += 1\n        if self.current_len > self.buffer_size:\n            self.current_len = self.buffer_size")},
+    {"id": "c02-b-ring-state-tuple-assignment", "file": _F, "find": _RING, "replace": _RING.replace("        self.insert_idx = (self.insert_idx + 1) % self.buffer_size\n        self.current_len = min(self.current_len + 1, self.buffer_size)", "        capacity = self.buffer_size\n        self.insert_idx, self.current_len = (self.insert_idx + 1) % capacity, min(capacity, 1 + self.current_len)")},
+    {"id": "c02-b-store-through-array-alias", "file": _F, "find": _ALLOC, "replace": _ALLOC.replace("        for k, v in sample.items():\n            self.buffer[k][self.insert_idx] = v\n", "        slot = self.insert_idx\n        for name, value in sample.items():\n            column = self.buffer[name]\n            column[slot, ...] = np.asarray(value)\n")},
+    {"id": "c02-b-alloc-guard-early-return-helper", "file": _F, "find": _ALLOC, "replace": "        self._ensure_allocated(sample)\n        for k, v in sample.items():\n            self.buffer[k][self.insert_idx] = v\n        self.insert_idx = (self.insert_idx + 1) % self.buffer_size\n        self.current_len = min(self.current_len + 1, self.buffer_size)\n\n    def _ensure_allocated(self, sample):\n        if len(self) > 0:\n            return\n        for k, v in sample.items():\n            shape = (self.buffer_size, *np.shape(v))\n            self.buffer[k] = np.zeros(shape=shape, dtype=self.buffer[k].dtype)\n\n    def sample_batch(\n        self, batch_size: int, rng: np.random.Generator\n    ) -> tuple[jnp.ndarray]:"},
+    {"id": "c02-b-ring-in-base-class", "file": _F, "edits": [("class ReplayBuffer:\n    \"\"\"Replay buffer that returns jax arrays.", "class _Ring:\n    def add_sample(self, **sample):\n" + _ALLOC.split("\n\n    def sample_batch(")[0] + "\n\n    def __len__(self):\n        return self.current_len\n\n\nclass ReplayBuffer(_Ring):\n    \"\"\"Replay buffer that returns jax arrays."), ("    def add_sample(self, **sample):\n        \"\"\"Add transition sample to the replay buffer.\n\n        Note that the individual arguments have to be passed as keyword\n        arguments with keys matching the ones passed to the constructor or\n        the default keys respectively.\n        \"\"\"\n" + _ALLOC, "    def sample_batch(\n        self, batch_size: int, rng: np.random.Generator\n    ) -> tuple[jnp.ndarray]:"), ("    def __len__(self):\n        \"\"\"Return current number of stored transitions in the replay buffer.\"\"\"\n        return self.current_len\n\n    def __getstate__", "    def __getstate__")]},
+    {"id": "c02-b-integers-local-bound-wrapped", "file": _F, "find": "        indices = rng.integers(0, self.current_len, batch_size)", "replace": "        n = self.current_len\n        drawn = rng.integers(0, n - 1, batch_size, endpoint=True)\n        indices = np.asarray(drawn)"},
+    {"id": "c02-b-sampler-length-parameter-renamed", "file": _F, "edits": [("    def prioritized_sampling(\n        self,\n        current_len: int,", "    def prioritized_sampling(\n        self,\n        n_valid: int,"), ("        priority = self.priority[:current_len]\n        if mask is not None:\n            priority = priority * mask[:current_len]\n        probabilities = np.cumsum(priority)\n        random_uniforms", "        priority = self.priority[0:n_valid]\n        if mask is not None:\n            priority = priority * mask[:n_valid]\n        probabilities = np.cumsum(priority)\n        random_uniforms"), ("        self.sampled_indices = np.searchsorted(probabilities, random_uniforms)\n        return self.sampled_indices\n", "        picked = np.searchsorted(probabilities, random_uniforms)\n        self.sampled_indices = picked\n        if mask is None:\n            return picked\n        return self.sampled_indices\n")]},
+    {"id": "c02-b-lap-sampler-by-keyword-local", "file": _F, "find": "        indices = self.priority.prioritized_sampling(\n            self.current_len, batch_size, rng\n        )", "replace": "        sampler = self.priority\n        indices = sampler.prioritized_sampling(rng=rng, batch_size=batch_size, current_len=len(self))"},
+    {"id": "c02-b-lap-explicit-base-call", "file": _F, "find": "        self.priority.initialize_priority(self.insert_idx)\n        super().add_sample(**sample)", "replace": "        self.priority.initialize_priority(self.insert_idx)\n        ReplayBuffer.add_sample(self, **sample)"},
+    {"id": "c02-b-lap-len-through-super", "file": _F, "find": "    def update_priority(self, priority):\n        self.priority.update_priority(priority)\n\n    def reset_max_priority(self):\n        self.priority.reset_max_priority(self.current_len)\n\nclass PrioritizedReplayBuffer", "replace": "    def __len__(self):\n        n = super().__len__()\n        return n\n\n    def update_priority(self, priority):\n        self.priority.update_priority(priority)\n\n    def reset_max_priority(self):\n        self.priority.reset_max_priority(self.current_len)\n\nclass PrioritizedReplayBuffer"},
+    {"id": "c02-b-mt-mark-by-set-union", "file": _F, "find": "        self.active_buffers.add(self.selected_task)", "replace": "        active = self.active_buffers\n        active |= {self.selected_task}"},
+    {"id": "c02-b-mt-mark-by-update", "file": _F, "find": "        self.active_buffers.add(self.selected_task)", "replace": "        self.active_buffers.update([self.selected_task])"},
+    {"id": "c02-b-mt-init-annotated-renamed-parameter", "file": _F, "edits": [("    def __init__(self, replay_buffer, n_tasks: int):\n        self.buffers = [replay_buffer]\n        for _ in range(n_tasks - 1):\n            self.buffers.append(copy.deepcopy(replay_buffer))", "    def __init__(self, prototype, n_tasks: int):\n        self.buffers: list = [prototype]\n        for _ in range(n_tasks - 1):\n            clone = copy.deepcopy(prototype)\n            self.buffers.append(clone)"), ("        self.selected_task = 0\n        self.active_buffers = set()", "        self.selected_task = 0\n        self.active_buffers: set[int] = set()")]},
+    {"id": "c02-b-mt-sample-batch-local-keyword-population", "file": _F, "find": "        self.sampled_task_idx = rng.choice(list(self.active_buffers), size=1)[0]\n\n        return self.buffers[self.sampled_task_idx].sample_batch(\n            *args, rng=rng, **kwargs\n        )", "replace": "        self.sampled_task_idx = rng.choice(a=list(self.active_buffers), size=1)[0]\n\n        batch = self.buffers[self.sampled_task_idx].sample_batch(\n            *args, rng=rng, **kwargs\n        )\n        return batch"},
+    {"id": "c02-b-mt-len-local-total", "file": _F, "find": "        return sum(len(buffer) for buffer in self.buffers)", "replace": "        total = int(sum([buffer.current_len for buffer in self.buffers]))\n        return total"},
 ]
